@@ -14,6 +14,14 @@ generated definition.  OH/Props/Arith<ID>*.lean proves that the generated defini
 outcome (or exactly where the hand-written model says so) and that they equal the hand-written models, so the property
 theorems are re-checked against what the code says NOW.
 
+Third extension (DESIGN §8.9): chrono mode (CHRONO_FNS: chrono's types are the values of the calendar model, every chrono
+call of the tables CHRONO_* is the function `Chrono.*` of OH/Model/RustChrono.lean), statement-level `if` / `match` with
+assignments and early `return`s, `debug_assert!`, payload enums, local closures, arm targets, untranslated functions of
+/repo as function parameters (FN_HOLES); a sequence front end (SEQ_TARGETS: `Vec` / consumed iterators as lists, `while let
+Some(x) = it.next()` as structural recursion, `from_fn` with fuel, library calls on vectors as function parameters whose
+contracts are hypotheses of the theorems; OH/Model/RustSeq.lean); bounded iterator chains over arrays and deques
+(`[iteration extension]`, OH/Model/RustIter.lean).
+
 The parser is a strict recursive-descent parser for exactly the Rust subset these functions use (see `class Parser`
 and DESIGN §8.9); anything else -- an unknown token, statement, method, type, a type the inference cannot determine, a
 macro of another shape, a missing `use` -- is an error naming file:line, exit status 1, and nothing is written.
@@ -46,7 +54,7 @@ F_DF = "opening-hours/src/filter/date_filter.rs"
 # `externs`: library calls kept as the tuple of their arguments, with the parameter types of the
 # library's signature (chrono: `NaiveDate::from_ymd_opt(year: i32, month: u32, day: u32)`).
 STRUCTS = [(F_EXT, "ExtendedTime"), (F_DAY, "Year"), (F_DAY, "WeekNum"), (F_CC, "CompactMonth"), (F_CC, "CompactYear"),
-           (F_TIME, "VariableTime"), (F_DAY, "YearRange"), (F_DAY, "WeekRange")]
+           (F_TIME, "VariableTime"), (F_DAY, "YearRange"), (F_DAY, "WeekRange"), (F_DAY, "DateOffset"), (F_CC, "CompactCalendar")]
 # fieldless enums (`enum E { A = 1, B = 2, .. }` or without discriminants): a Lean inductive + `E.discr`
 ENUMS = [(F_DAY, "Month"), (F_TIME, "TimeEvent")]
 # Types whose values are never looked into: parameters of these types are dropped from the Lean definition, they
@@ -54,11 +62,16 @@ ENUMS = [(F_DAY, "Month"), (F_TIME, "TimeEvent")]
 # read (they are opaque again).  HOLES: (type, method) -> result type; the call is NOT translated: its RESULT becomes
 # an extra parameter `ext<n>` of the Lean definition, one per call site, in the order of evaluation (the theorems
 # quantify over it; what the callee does, including a panic inside it, is outside the definition).
-OPAQUE_TYPES = {"Context", "NaiveDate", "TimeSpan", "Time", "IsoWeek"}
+OPAQUE_TYPES = {"Context", "NaiveDate", "TimeSpan", "Time", "IsoWeek", "CalendarIter"}
 OPAQUE_FIELDS = {("TimeSpan", "range"): "Range < Time >"}
 HOLES = {("TimeEvent", "as_naive"): "ExtendedTime", ("Time", "as_naive"): "ExtendedTime",
          # chrono: Datelike::year(), Datelike::iso_week(), IsoWeek::week()
-         ("NaiveDate", "year"): "i32", ("NaiveDate", "iso_week"): "IsoWeek", ("IsoWeek", "week"): "u32"}
+         ("NaiveDate", "year"): "i32", ("NaiveDate", "iso_week"): "IsoWeek", ("IsoWeek", "week"): "u32",
+         # [iteration extension] chrono: Datelike::month(), Datelike::day(); `CompactCalendar::iter` (a `flat_map` chain:
+         # not translated) and `Iterator::next` on what it returns.  `ExtNaiveDate` is a name of these tables only: a
+         # `NaiveDate` VALUE inside translated code, kept as the triple (year, month, day), see EXTVAL
+         ("NaiveDate", "month"): "u32", ("NaiveDate", "day"): "u32",
+         ("CompactCalendar", "iter"): "CalendarIter", ("CalendarIter", "next"): "Option < ExtNaiveDate >"}
 # `use PATH as ALIAS;` that the file has to contain for `ALIAS::Name` to be read as `Name`
 # what can be cross-checked of the parameter types assumed for the closures: the elements the first adaptor sees are
 # the items of `time_selector.as_naive(..)`, i.e. `<ts::TimeSpan as TimeFilter>::Output` = the result type of the
@@ -104,11 +117,100 @@ TARGETS = [
     ("macro", F_DAY, "impl_convert_for_month", "u8", "impl TryFrom < u8 > for Month", "Month", ["try_from"]),
     (F_DAY, "Month", None, ["next", "prev"]),
     (F_FRAME, "Month", "Framable", ["succ", "pred"]),
+    # third extension: chrono mode (CHRONO_FNS)
+    (F_DAY, None, None, ["add_days_saturating"]),
+    (F_DAY, "DateOffset", None, ["apply"]),
+    ("impl DateFilter for ds :: YearRange", F_DF, "YearRange", ["next_change_hint"]),
+    (F_DAY, "Month", None, ["from_date"]),
+    # ONE ARM of the `match self { .. }` that ends a method of an enum which is not translated as a whole:
+    # ("arm", file, impl header, fn, enum declaration file, enum, variant, {field: "None" | "Some"} (sub-patterns the arm
+    # must have; other fields are plain bindings), Lean namespace, Lean name).  The definition has the function's
+    # parameters (without `self`), then one parameter per binding of the pattern, typed from the enum declaration (as
+    # references: `match self` on `&Self`); its body is the statements in front of the `match` followed by the arm.
+    ("arm", F_DF, "impl DateFilter for ds :: MonthdayRange", "filter", F_DAY, "MonthdayRange", "Month", {}, "MonthdayRange", "filter_month"),
+    ("arm", F_DF, "impl DateFilter for ds :: MonthdayRange", "next_change_hint", F_DAY, "MonthdayRange", "Month", {"year": "None"},
+     "MonthdayRange", "hint_month_every_year"),
+    ("arm", F_DF, "impl DateFilter for ds :: MonthdayRange", "next_change_hint", F_DAY, "MonthdayRange", "Month", {"year": "Some"},
+     "MonthdayRange", "hint_month_of_year"),
+    # [iteration extension] bounded iteration over `[CompactMonth; 12]`
+    (F_CC, "CompactYear", None, ["first", "first_after", "count"]),
+    # a `VecDeque<CompactYear>` as a `List`; the chrono getters of the `date` parameter are holes
+    (F_CC, "CompactCalendar", None, ["year_for", "contains", "first_after", "count"]),
 ]
 EXTERNS = {"NaiveDate::from_ymd_opt": (["i32", "u32", "u32"], "Option < NaiveDate >")}
-FREE_NS = {F_DATES: "Dates", F_RANGE: "RangeUtils"}
+# ---- third extension: chrono calls with a Lean meaning -------------------------------------------------------------
+# The functions listed in CHRONO_FNS ((impl type or None, name), "chrono mode") see chrono's types not as opaque types
+# but as the values of the calendar model: a `NaiveDate` is its day number, a `Weekday` its number of days from Monday,
+# a `TimeDelta` its number of whole days, `IsoWeek` the date it was taken from (all `Int` in Lean); every call in the
+# tables below is emitted as the function of lean/OH/Model/RustChrono.lean of that name, which states its meaning over
+# OH/Model/Calendar.lean (TRUSTED: "chrono computes this", the same trust as the calendar model itself, tied by the
+# chr.* suite).  Anything of chrono that is not listed is an error.
+CHRONO_TYPES = {"NaiveDate": "NaiveDate", "Weekday": "Weekday", "Duration": "TimeDelta", "TimeDelta": "TimeDelta", "IsoWeek": "IsoWeek"}
+# (receiver type, method) -> (parameter types, result type, function of RustChrono.lean, needs `use chrono::prelude::Datelike`)
+CHRONO_METHODS = {
+    ("NaiveDate", "weekday"): ([], "Weekday", "Chrono.weekday", True),
+    ("NaiveDate", "year"): ([], "i32", "Chrono.year", True),
+    ("NaiveDate", "month"): ([], "u32", "Chrono.month", True),
+    ("NaiveDate", "day"): ([], "u32", "Chrono.day", True),
+    ("NaiveDate", "iso_week"): ([], "IsoWeek", "Chrono.iso_week", True),
+    ("NaiveDate", "with_year"): (["i32"], "Option < NaiveDate >", "Chrono.with_year", True),
+    ("NaiveDate", "succ_opt"): ([], "Option < NaiveDate >", "Chrono.succ_opt", False),
+    ("NaiveDate", "pred_opt"): ([], "Option < NaiveDate >", "Chrono.pred_opt", False),
+    ("NaiveDate", "checked_add_signed"): (["TimeDelta"], "Option < NaiveDate >", "Chrono.checked_add_signed", False),
+    ("IsoWeek", "week"): ([], "u32", "Chrono.iso_week_week", False),
+    ("IsoWeek", "year"): ([], "i32", "Chrono.iso_week_year", False),
+    ("Weekday", "days_since"): (["Weekday"], "u32", "Chrono.days_since", False),
+}
+CHRONO_CALLS = {
+    "NaiveDate::from_ymd_opt": (["i32", "u32", "u32"], "Option < NaiveDate >", "Chrono.from_ymd_opt"),
+    "NaiveDate::from_isoywd_opt": (["i32", "u32", "Weekday"], "Option < NaiveDate >", "Chrono.from_isoywd_opt"),
+    "Duration::try_days": (["i64"], "Option < TimeDelta >", "Chrono.try_days"),
+    "TimeDelta::try_days": (["i64"], "Option < TimeDelta >", "Chrono.try_days"),
+}
+CHRONO_CONSTS = {"NaiveDate::MIN": ("NaiveDate", "Chrono.DATE_MIN"), "NaiveDate::MAX": ("NaiveDate", "Chrono.DATE_MAX")}
+CHRONO_CONSTS.update({f"Weekday::{n}": ("Weekday", str(k)) for k, n in enumerate(["Mon", "Tue", "Wed", "Thu", "Fri", "Sat", "Sun"])})
+# `DATE_END.date()`: the constant of crate::opening_hours (its value is tied by tables2lean.py), which the file has to import
+CRATE_CONSTS = {"DATE_END": ("crate::opening_hours", "date", "NaiveDate", "Chrono.DATE_END")}
+# FN_HOLES: functions of /repo that are NOT translated (iterator code) but called from a chrono-mode function with
+# translated arguments: the FUNCTION is a parameter `ext_<name>` of the generated definition (as the sequence EXTERNs),
+# applied where the code calls it; the theorems instantiate it with the hand model of that function.  name -> (file that
+# has to define it, parameter types, result type); `[ T ]` = an array literal `[a, b]` passed as `impl IntoIterator<Item = T>`:
+# the list of its elements.  What the callee does, including a panic inside it, is outside the definition.
+FN_HOLES = {"next_change_from_bounds": (F_DF, ["NaiveDate", "[ NaiveDate ]", "[ NaiveDate ]"], "NaiveDate")}
+# a parameter `impl Datelike` is read as a `NaiveDate` (an ASSUMPTION on the callers, all in /repo: they pass dates)
+IMPL_TRAIT_AS = {"Datelike": "NaiveDate"}
+CHRONO_FNS = {(None, "add_days_saturating"), ("DateOffset", "apply"), ("YearRange", "next_change_hint"), ("Month", "from_date"),
+              ("MonthdayRange", "filter_month"), ("MonthdayRange", "hint_month_every_year"), ("MonthdayRange", "hint_month_of_year")}
+# enums WITH payloads (tuple variants over integer / chrono types): a Lean inductive with constructor arguments
+PENUMS = [(F_DAY, "WeekDayOffset")]
+# [iteration extension] `EXTERN(args).expect("..")` / `.unwrap()`: the payload is kept as the tuple of the arguments (type
+# "extval"); WHETHER the library call returns `Some` is a parameter of the generated definition (ORACLES: name and Lean
+# type), about which the theorems make an explicit hypothesis.  In the files of EXTVAL_FILES the type `Option<NaiveDate>`
+# is `Option` of such a value (elsewhere it is the result of the EXTERN itself, as in `easter`).
+ORACLES = {"NaiveDate::from_ymd_opt": ("from_ymd_opt_is_some", "Int → Int → Int → Bool")}
+# GETTERS: untranslated calls without arguments on a by-value PARAMETER of the function (`date.year()`) that are pure
+# functions of the (immutable, `Copy`) value: in the files of GETTER_FILES all the calls of one getter on one parameter
+# share ONE parameter `ext_<param>_<getter>` of the generated definition (so the theorems say which getter each
+# parameter stands for, and swapping `date.month()` / `date.day()` changes the definition)
+GETTERS = {("NaiveDate", "year"), ("NaiveDate", "month"), ("NaiveDate", "day")}
+GETTER_FILES = {F_CC}
+
+
+def hole_lean_names(holes):
+    """the Lean parameter of each hole: `ext<n>` (numbered among themselves, in evaluation order) or the getter's name"""
+    out, k = [], 0
+    for hn, _, _ in holes:
+        if hn.startswith("@"):
+            out.append("ext_" + hn[1:].replace(".", "_"))
+        else:
+            k += 1
+            out.append(f"ext{k}")
+    return out
+EXTVAL = "NaiveDate::from_ymd_opt"
+EXTVAL_FILES = {F_CC}
+FREE_NS = {F_DATES: "Dates", F_RANGE: "RangeUtils", F_DAY: "Day", F_DF: "DateFilter"}
 # library items that may be used unqualified only when the file imports them from exactly this module
-STD_USES = {"Range": "std::ops", "RangeInclusive": "std::ops", "max": "std::cmp", "min": "std::cmp"}
+STD_USES = {"Range": "std::ops", "RangeInclusive": "std::ops", "max": "std::cmp", "min": "std::cmp", "VecDeque": "std::collections"}
 ORD_BOUNDS = {"PartialOrd", "Ord"}
 
 INT_TYPES = {
@@ -286,7 +388,7 @@ def tint(name):
 
 
 # type constructors with one argument: Option<T>, Result<T, _>, std::ops::Range<T>, std::ops::RangeInclusive<T>
-UNARY = ("opt", "res", "range", "rangeincl", "ref")
+UNARY = ("opt", "res", "range", "rangeincl", "ref", "elems", "iter", "slice", "rangefrom", "deque")
 
 
 def strip_ref(t):
@@ -302,13 +404,15 @@ def prune(t):
         t = t.ref
     if isinstance(t, tuple) and t[0] in UNARY:
         return (t[0], prune(t[1]))
+    if isinstance(t, tuple) and t[0] == "tuple":  # [iteration extension] `(A, B, ..)`
+        return ("tuple",) + tuple(prune(x) for x in t[1:])
     return t
 
 
 def type_head(t):
     """the name under which the methods of a type are looked up"""
     if isinstance(t, tuple):
-        if t[0] in ("struct", "enum", "opaque"):
+        if t[0] in ("struct", "enum", "opaque", "ext", "penum"):
             return t[1]
         if t[0] == "range":
             return "Range"
@@ -337,14 +441,30 @@ def show(t):
         return f"Range<{show(t[1])}>"
     if t[0] == "rangeincl":
         return f"RangeInclusive<{show(t[1])}>"
-    if t[0] in ("tparam", "enum", "opaque"):
+    if t[0] in ("tparam", "enum", "opaque", "ext", "penum"):
         return t[1]
+    if t[0] == "unit":
+        return "()"
+    if t[0] == "elems":
+        return f"[{show(t[1])}]"
+    if t[0] == "closure":
+        return "{closure}"
     if t[0] == "array":
         return f"[{show(t[1])}; {t[2]}]"
     if t[0] == "tuple":
         return "(" + ", ".join(show(x) for x in t[1:]) + ")"
     if t[0] == "externret":
         return EXTERNS[t[1]][1].replace(" ", "") + f" [the arguments of {t[1]}]"
+    if t[0] == "iter":  # [iteration extension]
+        return f"impl Iterator<Item = {show(t[1])}>"
+    if t[0] == "slice":
+        return f"[{show(t[1])}]"
+    if t[0] == "rangefrom":
+        return f"RangeFrom<{show(t[1])}>"
+    if t[0] == "deque":
+        return f"VecDeque<{show(t[1])}>"
+    if t[0] == "extval":
+        return "NaiveDate [the arguments of " + t[1] + "]"
     return str(t)
 
 
@@ -368,6 +488,12 @@ def unify(a, b, where):
         fail(where, f"type mismatch: {show(a)} vs {show(b)}")
     if a[0] in UNARY:
         return unify(a[1], b[1], where)
+    if a[0] == "tuple":  # [iteration extension] component-wise
+        if len(a) != len(b):
+            fail(where, f"type mismatch: {show(a)} vs {show(b)}")
+        for x, y in zip(a[1:], b[1:]):
+            unify(x, y, where)
+        return
     if a != b:
         fail(where, f"type mismatch: {show(a)} vs {show(b)}")
 
@@ -411,8 +537,10 @@ class Parser:
         ("||",), ("&&",), ("==", "!=", "<", "<=", ">", ">="), ("|",), ("^",), ("&",), ("<<", ">>"), ("+", "-"), ("*", "/", "%"),
     ]
 
-    def __init__(self, toks, fname, structs, tparams=None, uses=(), enums=(), aliases=(), assoc=None):
+    def __init__(self, toks, fname, structs, tparams=None, uses=(), enums=(), aliases=(), assoc=None, modelled=False, penums=()):
         self.t, self.i, self.f, self.structs = toks, 0, fname, structs
+        self.modelled = modelled  # chrono mode, see CHRONO_FNS
+        self.penums = set(penums)
         self.enums = set(enums)
         self.aliases = set(aliases)  # module aliases `use .. as ALIAS;` checked by the caller: `ALIAS::Name` is `Name`
         self.assoc = dict(assoc or {})  # associated types of the impl: `Self::Name<..>`
@@ -457,6 +585,11 @@ class Parser:
     # -- types
     def type_(self):
         tk = self.peek()
+        if tk.text == "[" and self.f == "(tables of rs2lean.py)":
+            self.i += 1
+            inner = self.type_()
+            self.eat("]")
+            return T("elems", inner)  # the elements of an array literal (FN_HOLES)
         if tk.text == "&":
             # a shared reference to a value of the subset is the value (no `&mut`, no interior mutability, no
             # pointer identity in the subset; `&A: PartialOrd<&B>` compares the referents)
@@ -466,7 +599,32 @@ class Parser:
             if self.at("mut"):
                 fail(self.where(), "`&mut` types are outside the translated subset")
             return T("ref", self.type_())
-        for path, (_, rty) in EXTERNS.items():  # the result type of a library call kept as its arguments
+        if tk.kind == "id" and tk.text == "VecDeque" and self.peek(1).text == "<":
+            # [iteration extension] `std::collections::VecDeque<T>`: the list of its elements, front first
+            self.i += 1
+            self.need_use("VecDeque", tk)
+            self.eat("<")
+            inner = self.type_()
+            self.close_angle()
+            return T("deque", inner)
+        if tk.kind == "id" and tk.text == "ExtNaiveDate" and self.f == "(tables of rs2lean.py)":
+            self.i += 1
+            return T("extval", EXTVAL)
+        if getattr(self, "extval", False) and [x.text for x in self.t[self.i : self.i + 4]] == ["Option", "<", "NaiveDate", ">"]:
+            self.i += 4
+            return T("opt", T("extval", EXTVAL))
+        if tk.kind == "op" and tk.text == "(":
+            # [iteration extension] a tuple type `(A, B, ..)` (at least two components)
+            self.i += 1
+            parts = [self.type_()]
+            while self.at(","):
+                self.i += 1
+                parts.append(self.type_())
+            self.eat(")")
+            if len(parts) < 2:
+                fail(self.where(tk), "a parenthesised type is outside the translated subset")
+            return T("tuple", *parts)
+        for path, (_, rty) in ({} if self.modelled else EXTERNS).items():  # the result type of a library call kept as its arguments
             want = rty.split()
             if [x.text for x in self.t[self.i : self.i + len(want)]] == want:
                 self.i += len(want)
@@ -475,6 +633,15 @@ class Parser:
         if name in self.aliases and self.at("::"):
             self.i += 1
             return self.type_()
+        if self.modelled and name in CHRONO_TYPES:
+            return T("ext", CHRONO_TYPES[name])
+        if self.modelled and name == "impl" and self.peek().text in IMPL_TRAIT_AS:
+            self.i += 1
+            return T("ext", IMPL_TRAIT_AS[self.t[self.i - 1].text])
+        if name == "_" and getattr(self, "infer_ok", False):
+            return TVar(where=self.where(tk))  # `as _` / `Result<T, _>`: left to the inference
+        if name in self.penums:
+            return T("penum", name)
         if name in INT_TYPES:
             return tint(name)
         if name == "bool":
@@ -595,6 +762,7 @@ class Parser:
             self.generics()
         self.eat("(")
         params, has_self, mut_self, ref_self = [], False, False, False
+        mut_params = set()
         while not self.at(")"):
             if self.at("&") and self.peek(1).kind == "life" and self.peek(2).text == "self":
                 self.i += 3
@@ -613,7 +781,9 @@ class Parser:
                 has_self = True
             else:
                 if self.at("mut"):
-                    fail(self.where(), "`mut` parameters are outside the translated subset")
+                    # `mut name: T`: the parameter is a `let mut` local (reassigned by straight-line statements)
+                    self.i += 1
+                    mut_params.add(self.peek().text)
                 pn = self.ident()
                 self.eat(":")
                 params.append((pn, self.type_()))
@@ -655,7 +825,7 @@ class Parser:
                     self.eat(",")
         body = self.block()
         return Node("fn", line, name=name, params=params, has_self=has_self, mut_self=mut_self, ref_self=ref_self, ret=ret,
-                    body=body, tparams=dict(self.tparams))
+                    body=body, tparams=dict(self.tparams), mut_params=mut_params)
 
     def block(self):
         line = self.eat("{").line
@@ -667,6 +837,19 @@ class Parser:
                 stmts.append(self.let())
             elif self.at("assert") and self.peek(1).text == "!":
                 stmts.append(self.assert_())
+            elif self.at("debug_assert") and self.peek(1).text == "!":
+                # `debug_assert!(cond);` (the harness is built with debug assertions): a panic outcome when `cond` is false
+                ln = self.eat("debug_assert").line
+                self.eat("!")
+                start = self.i
+                self.eat("(")
+                c = self.expr()
+                if self.at(","):
+                    fail(self.where(), "`debug_assert!` with a message is outside the translated subset")
+                self.eat(")")
+                text = "".join(tk.text for tk in self.t[start + 1 : self.i - 1])
+                self.eat(";")
+                stmts.append(Node("dassert", ln, c=c, text=text))
             elif self.at("return"):
                 ln = self.eat("return").line
                 e = self.expr()
@@ -685,11 +868,15 @@ class Parser:
                     # only the call of a `&mut self` method may stand as a statement (checked by the type inference)
                     self.i += 1
                     stmts.append(Node("exprstmt", e.line, e=e))
+                elif e.kind in ("if", "match") and not self.at("}"):
+                    # `if c { .. }` / `match e { .. }` of type `()` followed by more statements (no `;` needed)
+                    stmts.append(Node("exprstmt", e.line, e=e))
                 else:
                     tail = e
-        self.eat("}")
+        end = self.eat("}")
         if tail is None:
-            fail(f"{self.f}:{line}", "a block without a value is outside the translated subset")
+            # a block of type `()`: only as a branch of a statement-level `if` / `match` (checked by the inference)
+            tail = Node("unit", end.line)
         return Node("block", line, stmts=stmts, tail=tail)
 
     def let(self):
@@ -700,6 +887,12 @@ class Parser:
             self.eat("(")
             name = self.ident()
             self.eat(")")
+            pann = None
+            if self.at(":"):
+                self.i += 1
+                self.infer_ok = True
+                pann = self.type_()
+                self.infer_ok = False
             self.eat("=")
             e = self.expr()
             self.eat("else")
@@ -709,7 +902,9 @@ class Parser:
             self.eat(";")
             self.eat("}")
             self.eat(";")
-            return Node("letsome", line, name=name, e=e, orelse=r, is_res=is_res)
+            return Node("letsome", line, name=name, e=e, orelse=r, is_res=is_res, pann=pann)
+        if self.at("("):
+            return self.let_tuple(line)  # [iteration extension] `let (a, b) = e;`
         mut = False
         if self.at("mut"):
             self.i += 1
@@ -723,6 +918,67 @@ class Parser:
         e = self.expr()
         self.eat(";")
         return Node("let", line, name=name, ann=ann, e=e, mut=mut)
+
+    # [iteration extension] ----------------------------------------------------------------------
+    def tuple_pattern(self):
+        """`(a, b, ..)`: plain names only (no nesting, no `mut`, no `ref`, no `_`)"""
+        self.eat("(")
+        names = []
+        while True:
+            if self.peek().kind != "id" or self.peek().text in ("mut", "ref", "_"):
+                fail(self.where(), f"`{self.peek().text}` in a tuple pattern (nested patterns, `mut`, `ref`, `_`) is outside the translated subset")
+            names.append(self.ident())
+            if not self.at(","):
+                break
+            self.i += 1
+        self.eat(")")
+        if len(names) < 2 or len(set(names)) != len(names):
+            fail(self.where(), "this tuple pattern is outside the translated subset")
+        return names
+
+    def let_tuple(self, line):
+        names = self.tuple_pattern()
+        self.eat("=")
+        e = self.expr()
+        self.eat(";")
+        return Node("lettuple", line, names=names, e=e)
+
+    def closure_(self):
+        """`|x| expr`, `|(a, b)| expr` (one parameter, no type annotation, no `move`)"""
+        tk = self.eat("|")
+        if self.at("("):
+            pat = self.tuple_pattern()
+        else:
+            pat = self.ident()
+        if self.at(":") or self.at(","):
+            fail(self.where(), "closures with several parameters or type annotations are outside the translated subset")
+        self.eat("|")
+        if self.at("->"):
+            fail(self.where(), "closures with a result type annotation are outside the translated subset")
+        body = self.expr()
+        return Node("closure", tk.line, pat=pat, e=body, params=([(pat, None)] if isinstance(pat, str) else None), body=body)
+
+    def iflet_(self, nostruct):
+        """`if let Some(x) = e { a } else { b }` (also `else if ..`)"""
+        line = self.eat("if").line
+        self.eat("let")
+        self.eat("Some")
+        self.eat("(")
+        name = self.ident()
+        self.eat(")")
+        self.eat("=")
+        s = self.expr(nostruct=True)
+        a = self.block()
+        if not self.at("else"):
+            fail(self.where(), "`if let` without `else` is outside the translated subset")
+        self.i += 1
+        if self.at("if"):
+            b_line = self.peek().line
+            b = Node("block", b_line, stmts=[], tail=self.primary(nostruct))
+        else:
+            b = self.block()
+        return Node("iflet", line, name=name, e=s, a=a, b=b)
+    # ---------------------------------------------------------------------------------------------
 
     def assert_(self):
         """exactly `assert!((LO..=HI).contains(&NAME));`"""
@@ -764,6 +1020,8 @@ class Parser:
             if self.peek().kind == "op" and self.peek().text in ("..", "..="):
                 op = self.peek()
                 self.i += 1
+                if op.text == ".." and self.peek().kind == "op" and self.peek().text in ("]", ")"):
+                    return Node("rangefrom", op.line, l=lhs)  # [iteration extension] `a..` inside `[..]` / `(..)`
                 rhs = self.expr(0, nostruct)
                 if self.peek().kind == "op" and self.peek().text in ("..", "..="):
                     fail(self.where(), "chained range operator")
@@ -787,8 +1045,10 @@ class Parser:
         e = self.unary(nostruct)
         while self.at("as"):
             ln = self.eat("as").line
+            self.infer_ok = True
             ty = self.type_()
-            if ty[0] != "int":
+            self.infer_ok = False
+            if not isinstance(ty, TVar) and ty[0] != "int":
                 fail(f"{self.f}:{ln}", "`as` towards a non-integer type")
             e = Node("cast", ln, e=e, to=ty)
         return e
@@ -861,9 +1121,29 @@ class Parser:
             self.i += 1
             e = self.expr()
             if self.at(","):
+                # [iteration extension] a tuple `(a, b, ..)`
+                items = [e]
+                while self.at(","):
+                    self.i += 1
+                    items.append(self.expr())
+                self.eat(")")
+                return Node("tuple", tk.line, items=items)
+            if self.at(","):
                 fail(self.where(), "tuples are outside the translated subset")
             self.eat(")")
             return Node("paren", tk.line, e=e)
+        if tk.kind == "op" and tk.text == "[" and self.modelled:
+            # `[a, b, ..]`: an array literal, only as an argument of a function of FN_HOLES (the list of its elements)
+            self.i += 1
+            elems = []
+            while not self.at("]"):
+                elems.append(self.expr())
+                if self.at(";"):
+                    fail(self.where(), "`[x; n]` is outside the translated subset")
+                if not self.at("]"):
+                    self.eat(",")
+            self.eat("]")
+            return Node("arraylit", tk.line, elems=elems)
         if tk.kind == "op" and tk.text == "{":
             return Node("blockexpr", tk.line, b=self.block())
         if tk.kind == "op" and tk.text == "||":
@@ -876,14 +1156,39 @@ class Parser:
             body = self.peek()
             self.ident()
             return Node("errclosure", tk.line, name=body.text)
+        if tk.kind == "op" and tk.text == "|":
+            # `|x| e`, `|(a, b)| e` (an adaptor argument, [iteration extension]), `|x: T, y: U| e` (a local closure
+            # `let f = |..| e;`, the argument of `and_then`): one node kind; `pat`/`e` for the first two, `params`/`body` always
+            if self.peek(1).text == "(":
+                return self.closure_()
+            self.i += 1
+            ps = []
+            while not self.at("|"):
+                pn = self.ident()
+                pt = None
+                if self.at(":"):
+                    self.i += 1
+                    pt = self.type_()
+                ps.append((pn, pt))
+                if not self.at("|"):
+                    self.eat(",")
+            self.eat("|")
+            if self.at("->"):
+                fail(self.where(), "closures with a result type annotation are outside the translated subset")
+            body = self.expr()
+            simple = len(ps) == 1 and ps[0][1] is None
+            return Node("closure", tk.line, params=ps, body=body, pat=(ps[0][0] if simple else None), e=body)
         if tk.kind != "id":
             fail(self.where(), f"`{tk.text}` is outside the translated subset")
+        if tk.text == "if" and self.peek(1).text == "let":
+            return self.iflet_(nostruct)  # [iteration extension]
         if tk.text == "if":
             self.i += 1
             c = self.expr(nostruct=True)
             a = self.block()
             if not self.at("else"):
-                fail(self.where(), "`if` without `else` is outside the translated subset")
+                # `if c { .. }` of type `()`: a statement (early `return`, assignments)
+                return Node("if", tk.line, c=c, a=a, b=Node("block", tk.line, stmts=[], tail=Node("unit", tk.line)))
             self.i += 1
             if self.at("if"):
                 b_line = self.peek().line
@@ -906,6 +1211,14 @@ class Parser:
             if self.at("<"):
                 fail(self.where(), "turbofish is outside the translated subset")
             path.append(self.ident())
+        if self.at("!") and path == ["unreachable"] and self.peek(1).text == "(":
+            # `unreachable!(..)`: a panic outcome (the message and its arguments are not translated)
+            self.i += 1
+            close = matching(self.t, self.i)
+            if close is None:
+                fail(self.where(tk), "unterminated `unreachable!(`")
+            self.i = close + 1
+            return Node("unreachable", tk.line)
         if self.at("!"):
             fail(self.where(tk), f"macro `{path[-1]}!` is outside the translated subset")
         if len(path) == 1:
@@ -957,7 +1270,16 @@ class Parser:
             if name == "self":
                 return Node("self", tk.line)
             return Node("var", tk.line, name=name)
+        if len(path) > 1 and path[0] in self.aliases:
+            path = path[1:]  # `ds::Weekday::Mon`: the alias was checked by the caller
+        if not self.at("(") and self.modelled and "::".join(path) in CHRONO_CONSTS:
+            return Node("chronoconst", tk.line, path="::".join(path))
+        if self.at("(") and len(path) == 2 and path[0] in self.penums:
+            a = self.args()
+            return Node("pvariant", tk.line, enum=path[0], name=path[1], args=a)
         if not self.at("("):
+            if len(path) == 2 and path[0] in self.penums:
+                return Node("pvariant", tk.line, enum=path[0], name=path[1], args=[])
             if len(path) == 2 and (path[0] == "Self" or path[0] in self.enums or path[0] in self.structs):
                 # a variant of a translated enum or an associated constant of a translated struct (resolved by the types)
                 return Node("variant", tk.line, enum=path[0], name=path[1])
@@ -983,9 +1305,27 @@ class Parser:
                 while self.at("::"):
                     self.i += 1
                     path.append(self.ident())
-                if len(path) != 2:
+                if len(path) > 1 and path[0] in self.aliases:
+                    path = path[1:]
+                if len(path) == 1 and path[0] not in ("Some", "None", "Ok", "Err") and re.fullmatch(r"[a-z_][a-z0-9_]*", path[0]) and not self.at("("):
+                    pat = Node("bindall", ptk.line, name=path[0])  # a final arm that binds the value
+                elif len(path) == 2 and path[0] in self.penums:
+                    binds = []
+                    if self.at("("):
+                        self.i += 1
+                        while not self.at(")"):
+                            btk = self.peek()
+                            if btk.kind != "id" or not re.fullmatch(r"[a-z_][a-z0-9_]*", btk.text):
+                                fail(self.where(), "only plain bindings inside a variant pattern are translated")
+                            binds.append(self.ident())
+                            if not self.at(")"):
+                                self.eat(",")
+                        self.eat(")")
+                    pat = Node("pvariant", ptk.line, enum=path[0], name=path[1], binds=binds)
+                elif len(path) != 2:
                     fail(self.where(ptk), "this pattern is outside the translated subset")
-                pat = Node("variant", ptk.line, enum=path[0], name=path[1])
+                else:
+                    pat = Node("variant", ptk.line, enum=path[0], name=path[1])
             else:
                 fail(self.where(), f"pattern `{ptk.text}` is outside the translated subset")
             if self.at("|") or self.at("if") or self.at("@") or self.at("..=") or self.at("("):
@@ -1000,7 +1340,7 @@ class Parser:
                 body = Node("block", bl, stmts=[], tail=self.expr())
                 if not self.at("}"):
                     self.eat(",")
-            if arms and arms[-1][0].kind == "wild":
+            if arms and arms[-1][0].kind in ("wild", "bindall"):
                 fail(self.where(ptk), "an arm after `_`")
             arms.append((pat, body))
         self.eat("}")
@@ -1012,7 +1352,7 @@ class Parser:
 # ------------------------------------------------------------------------------------------------
 # locating items
 
-def find_struct(toks, fname, name, known=(), known_enums=()):
+def find_struct(toks, fname, name, known=(), known_enums=(), known_penums=()):
     """`struct NAME { f: int, .. }` or `struct NAME(int | [ELEM; N], ..);` -> ordered [(field, type)];
     ELEM an integer type or a struct of `known` (translated before)"""
     for i, tk in enumerate(toks):
@@ -1032,10 +1372,10 @@ def find_struct(toks, fname, name, known=(), known_enums=()):
                     fn, colon = toks[j], toks[j + 1]
                     if fn.kind != "id" or colon.text != ":":
                         fail(f"{fname}:{fn.line}", f"struct {name}: unexpected `{fn.text}`")
-                    tp = Parser(toks, fname, set(known), uses=set(STD_USES), enums=set(known_enums))
+                    tp = Parser(toks, fname, set(known), uses=set(STD_USES), enums=set(known_enums), penums=set(known_penums))
                     tp.i = j + 2
                     ft = tp.type_()
-                    if ft[0] not in ("int", "struct", "enum", "bool", "rangeincl", "range") or \
+                    if ft[0] not in ("int", "struct", "enum", "penum", "bool", "rangeincl", "range", "deque") or \
                             (ft[0] in ("range", "rangeincl") and ft[1][0] not in ("int", "struct")):
                         fail(f"{fname}:{fn.line}", f"struct {name}: the type of field {fn.text} is outside the translated subset")
                     fields.append((fn.text, ft))
@@ -1117,6 +1457,213 @@ def find_enum(toks, fname, name):
     fail(fname, f"enum {name} not found")
 
 
+def find_penum(toks, fname, name, structs, enums):
+    """`enum NAME { A, B(T, ..), .. }`: unit and tuple variants over integer / chrono / translated types
+    -> [(variant, [field types])], line"""
+    for i, tk in enumerate(toks):
+        if tk.text == "enum" and tk.kind == "id" and toks[i + 1].text == name:
+            j = i + 2
+            if toks[j].text != "{":
+                fail(f"{fname}:{tk.line}", f"enum {name}: generic or unexpected shape")
+            end = matching(toks, j)
+            j += 1
+            out = []
+            while j < end:
+                v = toks[j]
+                if v.kind != "id":
+                    fail(f"{fname}:{v.line}", f"enum {name}: unexpected `{v.text}`")
+                j += 1
+                tys = []
+                if toks[j].text == "(":
+                    close = matching(toks, j)
+                    tp = Parser(toks, fname, set(structs), uses=set(STD_USES), enums=set(enums), modelled=True)
+                    tp.i = j + 1
+                    while tp.i < close:
+                        ft = tp.type_()
+                        if ft[0] not in ("int", "ext", "bool", "enum", "struct"):
+                            fail(f"{fname}:{v.line}", f"enum {name}: the payload of {v.text} is outside the translated subset")
+                        tys.append(ft)
+                        if tp.i < close:
+                            tp.eat(",")
+                    j = close + 1
+                elif toks[j].text in ("{", "="):
+                    fail(f"{fname}:{v.line}", f"enum {name}: variant {v.text} has named fields / a discriminant (outside the translated subset)")
+                out.append((v.text, tys))
+                if j < end:
+                    if toks[j].text != ",":
+                        fail(f"{fname}:{toks[j].line}", f"enum {name}: unexpected `{toks[j].text}`")
+                    j += 1
+            if len({n for n, _ in out}) != len(out) or not out:
+                fail(f"{fname}:{tk.line}", f"enum {name}: duplicate variant")
+            return out, tk.line
+    fail(fname, f"enum {name} not found")
+
+
+def find_local_fns(tk):
+    """the names of the free functions a file defines (top level)"""
+    out, depth = [], 0
+    for i, t in enumerate(tk):
+        if t.kind == "op" and t.text == "{":
+            depth += 1
+        elif t.kind == "op" and t.text == "}":
+            depth -= 1
+        elif depth == 0 and t.kind == "id" and t.text == "fn" and tk[i + 1].kind == "id":
+            out.append(tk[i + 1].text)
+    return out
+
+
+def arm_function(tk, rel, o, lean_name, etk, erel, ename, vname, subpats, aliases):
+    """the tokens of `fn LEAN_NAME(params without self, bindings of the arm's pattern) -> R { prefix statements; arm body }`
+    for the arm `ENUM::VARIANT { .. }` (with the sub-patterns `subpats`) of the `match self { .. }` that ends the function
+    whose `fn` token is at `o`; the types of the bindings are read from the declaration of the enum (file `erel`)"""
+    def W(i):
+        return f"{rel}:{tk[i].line}"
+    # signature
+    po = o + 2
+    if tk[po].text == "<":
+        depth = 0
+        while True:
+            depth += {"<": 1, ">": -1}.get(tk[po].text, 0)
+            po += 1
+            if depth == 0:
+                break
+    if tk[po].text != "(":
+        fail(W(po), "unexpected function signature")
+    pc = matching(tk, po)
+    params = tk[po + 1 : pc]
+    if [x.text for x in params[:2]] != ["&", "self"]:
+        fail(W(po), "the function of an arm target has to take `&self`")
+    params = params[3:] if len(params) > 2 and params[2].text == "," else params[2:]
+    bo = pc
+    while tk[bo].text != "{":
+        if tk[bo].kind == "eof":
+            fail(W(pc), "no body")
+        bo += 1
+    be = matching(tk, bo)
+    # the last statement of the body: `match self { .. }`
+    depth, mo = 0, None
+    for i in range(bo + 1, be):
+        t = tk[i].text
+        if tk[i].kind == "op" and t in "{([":
+            depth += 1
+        elif tk[i].kind == "op" and t in "})]":
+            depth -= 1
+        elif depth == 0 and t == "match" and tk[i + 1].text == "self" and tk[i + 2].text == "{":
+            mo = i
+            break
+    if mo is None or matching(tk, mo + 2) != be - 1:
+        fail(W(bo), "the body does not end with `match self { .. }`")
+    prefix = tk[bo + 1 : mo]
+    me = be - 1
+    # the declaration of the variant
+    decl = None
+    for i, t in enumerate(etk):
+        if t.text == "enum" and t.kind == "id" and etk[i + 1].text == ename and etk[i + 2].text == "{":
+            ee = matching(etk, i + 2)
+            j, depth = i + 3, 0
+            while j < ee:
+                if depth == 0 and etk[j].text == vname and etk[j + 1].text == "{" and etk[j - 1].text in ("{", ","):
+                    decl = (j + 1, matching(etk, j + 1))
+                    break
+                if etk[j].kind == "op" and etk[j].text in "{([":
+                    depth += 1
+                elif etk[j].kind == "op" and etk[j].text in "})]":
+                    depth -= 1
+                j += 1
+    if decl is None:
+        fail(erel, f"`enum {ename} {{ .. {vname} {{ .. }} .. }}` not found")
+    ftypes, j = {}, decl[0] + 1
+    while j < decl[1]:
+        if etk[j].text == "pub":
+            j += 1
+        fn_, j0, depth = etk[j].text, j + 2, 0
+        if etk[j + 1].text != ":":
+            fail(f"{erel}:{etk[j].line}", f"enum {ename}::{vname}: unexpected `{etk[j + 1].text}`")
+        j = j0
+        while j < decl[1] and not (depth == 0 and etk[j].text == ","):
+            depth += {"<": 1, "(": 1, ">": -1, ")": -1, ">>": -2}.get(etk[j].text, 0)
+            j += 1
+        ftypes[fn_] = etk[j0:j]
+        j += 1
+    # the arms
+    found, i = [], mo + 3
+    while i < me:
+        ps = i
+        while tk[i].text != "=>":
+            if tk[i].kind == "eof" or i >= me:
+                fail(W(ps), "arm without `=>`")
+            if tk[i].kind == "op" and tk[i].text in "{([":
+                i = matching(tk, i)
+            i += 1
+        pat = tk[ps:i]
+        i += 1
+        if tk[i].text == "{":
+            body = (i, matching(tk, i))
+            i = body[1] + 1
+        else:
+            bs, depth = i, 0
+            while i < me and not (depth == 0 and tk[i].text == ","):
+                if tk[i].kind == "op" and tk[i].text in "{([":
+                    i = matching(tk, i)
+                i += 1
+            body = (bs - 1, i)  # exclusive bounds around the expression
+        if i < me and tk[i].text == ",":
+            i += 1
+        ptx = [x.text for x in pat]
+        while len(ptx) > 2 and ptx[0] in aliases and ptx[1] == "::":
+            ptx, pat = ptx[2:], pat[2:]
+        if ptx[:4] == [ename, "::", vname, "{"] and ptx[-1] == "}":
+            # fields: `name`, `name: None`, `name: Some(binding)`
+            fields, k, inner = {}, 0, pat[4:-1]
+            while k < len(inner):
+                fname2 = inner[k].text
+                if inner[k].kind != "id":
+                    fail(f"{rel}:{inner[k].line}", "this pattern is outside the translated subset")
+                k += 1
+                sub = None
+                if k < len(inner) and inner[k].text == ":":
+                    if inner[k + 1].text == "None":
+                        sub, k = ("None", None), k + 2
+                    elif [x.text for x in inner[k + 1 : k + 3]] == ["Some", "("] and inner[k + 4].text == ")" and inner[k + 3].kind == "id":
+                        sub, k = ("Some", inner[k + 3].text), k + 5
+                    else:
+                        fail(f"{rel}:{inner[k].line}", "this sub-pattern is outside the translated subset")
+                fields[fname2] = sub
+                if k < len(inner):
+                    if inner[k].text != ",":
+                        fail(f"{rel}:{inner[k].line}", "this pattern is outside the translated subset")
+                    k += 1
+            if {f: (v[0] if v else None) for f, v in fields.items() if v} == subpats:
+                found.append((fields, body, pat[0].line))
+    if len(found) != 1:
+        fail(W(mo), f"{len(found)} arms `{ename}::{vname} {{ .. }}` with the sub-patterns {subpats} found")
+    fields, body, pline = found[0]
+    if set(fields) != set(ftypes):
+        fail(f"{rel}:{pline}", f"the pattern does not name every field of {ename}::{vname} (`..` is outside the translated subset)")
+
+    def mk(text, line, kind=None):
+        return Tok(kind or ("id" if re.match(r"\w", text) else "op"), text, line)
+    extra = []
+    for f in ftypes:  # declaration order
+        sub = fields[f]
+        if sub and sub[0] == "None":
+            continue
+        ty = ftypes[f]
+        name = f
+        if sub:
+            if [x.text for x in ty[:2]] != ["Option", "<"] or ty[-1].text != ">":
+                fail(f"{rel}:{pline}", f"`{f}: Some(..)`: the field is not an `Option<..>`")
+            ty, name = ty[2:-1], sub[1]
+        extra += [mk(",", pline)] if (extra or params) else []
+        extra += [mk(name, pline), mk(":", pline), mk("&", pline)] + [Tok(x.kind, x.text, pline) for x in ty]
+    if params and params[-1].text == ",":
+        params = params[:-1]
+    inner = tk[body[0] + 1 : body[1]]
+    syn = [mk("fn", tk[o].line), mk(lean_name, tk[o].line)] + tk[o + 2 : po] + [mk("(", tk[po].line)] + params + extra + [mk(")", tk[pc].line)] \
+        + tk[pc + 1 : bo] + [mk("{", tk[bo].line)] + prefix + inner + [mk("}", tk[be].line), Tok("eof", "", tk[be].line)]
+    return syn
+
+
 def expand_macro(toks, fname, macro, arg):
     """The tokens `macro!(.., arg, ..)` expands to for `arg`, for a macro of exactly this shape:
 
@@ -1190,7 +1737,7 @@ def expand_macro(toks, fname, macro, arg):
 def derives_of(raw, name):
     """the traits in the `#[derive(..)]` attributes in front of `struct NAME` (on the tokens WITH attributes)"""
     for i, tk in enumerate(raw):
-        if tk.text == "struct" and tk.kind == "id" and raw[i + 1].text == name:
+        if tk.text in ("struct", "enum") and tk.kind == "id" and raw[i + 1].text == name:
             out, j = set(), i - 1
             while j >= 0 and raw[j].text in ("pub", ")", "crate", "("):
                 j -= 1  # `pub`, `pub(crate)`
@@ -1354,6 +1901,24 @@ def strip_paren(e):
     return e
 
 
+def contains_return(n):
+    """`return`, `?` or `let .. else { return }` somewhere inside (not looking into local closures)"""
+    if isinstance(n, Node):
+        if n.kind in ("return", "try", "letsome"):
+            return True
+        if n.kind == "closure":
+            return False
+        return any(contains_return(v) for key, v in n.__dict__.items() if key not in ("ty", "callee", "bin", "ret", "free", "closure"))
+    if isinstance(n, (list, tuple)):
+        return any(contains_return(x) for x in n)
+    return False
+
+
+def bound_names(b):
+    """the names a block binds at its top level"""
+    return [s.name for s in b.stmts if s.kind in ("let", "letsome")]
+
+
 class FnInfo:
     def __init__(self, key, ns, lean_name, node, self_ty, fname, self_t=None, uses=()):
         self.key, self.ns, self.lean_name, self.node, self.self_ty, self.fname = key, ns, lean_name, node, self_ty, fname
@@ -1364,6 +1929,10 @@ class FnInfo:
         self.imports = set()  # (module, name) pairs of the file's `use` items
         self.holes = []  # (method, line) of the untranslated calls whose results are parameters `ext<n>`
         self.is_const = False
+        self.modelled = False  # chrono mode, see CHRONO_FNS
+        self.fn_holes = []  # names of FN_HOLES called here: parameters `ext_<name>` of the definition
+        self.local_fns = set()  # the free functions the file defines
+        self.penums = {}
         self.derives = {}  # struct -> traits it derives
         self.ordered_structs = set()  # structs compared with `<` .. / max / min here
 
@@ -1393,11 +1962,14 @@ class Infer:
 
     def run(self):
         f = self.fi.node
+        self.no_ext_names(f)  # [iteration extension]
         env = {}
         if f.has_self:
             env["self"] = T("ref", self.fi.self_t) if getattr(f, "ref_self", False) else self.fi.self_t
         for pn, pt in f.params:
             env[pn] = self.conc(pt)
+            if pn in getattr(f, "mut_params", ()):
+                env[("mut", pn)] = True
         self.ret = self.conc(f.ret)
         t = self.block(f.body, env)
         if f.body.tail.kind != "return":
@@ -1407,6 +1979,28 @@ class Infer:
         for n in self.nodes:
             n.ty = prune(n.ty)
             self.no_vars(n.ty, n)
+
+    def no_ext_names(self, f):
+        """no parameter, local or closure parameter may be called `ext_..` (the getter parameters, see GETTERS)"""
+        def walk(n):
+            if isinstance(n, Node):
+                names = [getattr(n, "name", None)] if n.kind in ("let", "letsome", "iflet") else []
+                names += list(getattr(n, "names", [])) if n.kind == "lettuple" else []
+                if n.kind == "closure":
+                    names += n.pat if isinstance(n.pat, list) else [n.pat]
+                for nm in names:
+                    if isinstance(nm, str) and nm.startswith("ext_"):
+                        fail(self.w(n), f"the name {nm} clashes with the translator's parameters")
+                for key, v in n.__dict__.items():
+                    if key not in ("ty", "callee", "bin"):
+                        walk(v)
+            elif isinstance(n, (list, tuple)):
+                for x in n:
+                    walk(x)
+        for pn, _ in f.params:
+            if pn.startswith("ext_"):
+                fail(f"{self.fi.fname}:{f.line}", f"the name {pn} clashes with the translator's parameters")
+        walk(f.body)
 
     def no_vars(self, t, n):
         if isinstance(t, TVar):
@@ -1418,16 +2012,23 @@ class Infer:
         if t[0] in UNARY:
             self.no_vars(t[1], n)
             n.ty = prune(n.ty)
+        if t[0] == "tuple":  # [iteration extension]
+            for x in t[1:]:
+                self.no_vars(x, n)
+            n.ty = prune(n.ty)
 
     def block(self, b, env):
         env = dict(env)
         for s in b.stmts:
-            if s.kind == "let":
+            if s.kind == "let" and strip_paren(s.e).kind == "closure":
+                self.local_closure(s, env)
+            elif s.kind == "let":
                 t = self.expr(s.e, env)
                 if s.ann is not None:
                     unify(t, self.conc(s.ann), self.w(s))
                 env[s.name] = t
                 env[("mut", s.name)] = s.mut
+                env[("id", s.name)] = object()
             elif s.kind == "assign":
                 self.place_root(s.place, env, "assignment", index_ok=False)
                 tp = self.expr(s.place, env)
@@ -1439,6 +2040,15 @@ class Infer:
                     # reading the place has no effect and `e` cannot write it: mutation only happens in statements)
                     s.bin = Node("bin", s.line, op=s.op, l=s.place, r=s.e)
                     unify(self.expr(s.bin, env), tp, self.w(s))
+            elif s.kind == "exprstmt" and strip_paren(s.e).kind in ("if", "match"):
+                # a statement-level `if` / `match` of type `()`: its branches may assign and `return`; the rest of the
+                # block is generated inside every branch (see `Gen.block`), so a name bound in a branch must not
+                # shadow a name of the enclosing scope
+                r = strip_paren(s.e)
+                r.stmt_level = True
+                unify(self.expr(s.e, env), T("unit"), self.w(s))
+            elif s.kind == "dassert":
+                unify(self.expr(s.c, env), BOOL, self.w(s))
             elif s.kind == "exprstmt":
                 self.expr(s.e, env)
                 if not getattr(strip_paren(s.e), "mutcall", False):
@@ -1446,10 +2056,21 @@ class Infer:
             elif s.kind == "letsome":
                 t = self.expr(s.e, env)
                 inner = TVar(where=self.w(s))
+                if getattr(s, "pann", None) is not None:
+                    unify(t, self.conc(s.pann), self.w(s))
                 unify(t, T("res" if s.is_res else "opt", inner), self.w(s))
                 unify(self.expr(s.orelse, env), self.ret, self.w(s))
                 env[s.name] = inner
                 env[("mut", s.name)] = False
+                env[("id", s.name)] = object()
+            elif s.kind == "lettuple":
+                # [iteration extension] `let (a, b) = e;`
+                t = self.expr(s.e, env)
+                tvs = [TVar(where=self.w(s)) for _ in s.names]
+                unify(t, T("tuple", *tvs), self.w(s))
+                for nm, tv in zip(s.names, tvs):
+                    env[nm] = tv
+                    env[("mut", nm)] = False
             elif s.kind == "assert":
                 if s.name not in env:
                     fail(self.w(s), f"unknown variable {s.name}")
@@ -1465,6 +2086,84 @@ class Infer:
         t = self.expr(b.tail, env)
         b.ty = t
         return t
+
+    def local_closure(self, s, env):
+        # `let f = |x: T, ..| body;`: a local function, expanded where it is called.  It may read the variables
+        # in scope (none of them `mut`); they must still be the same bindings where it is called.
+        c = strip_paren(s.e)
+        if s.mut or s.ann is not None:
+            fail(self.w(s), "this closure binding is outside the translated subset")
+        cenv = dict(env)
+        for pn, pt in c.params:
+            if pt is None:
+                fail(self.w(c), "a local closure needs its parameter types written out")
+            cenv[pn] = self.conc(pt)
+            cenv[("mut", pn)] = False
+            cenv[("id", pn)] = object()
+        c.ret = TVar(where=self.w(c))
+        if self.has_kind(c.body, ("return", "letsome", "assign")):
+            fail(self.w(c), "`return` / `let .. else` / an assignment inside a local closure is outside the translated subset")
+        saved, self.ret = self.ret, c.ret
+        self.in_closure = getattr(self, "in_closure", 0) + 1
+        unify(self.expr(c.body, cenv), c.ret, self.w(c))
+        self.in_closure -= 1
+        self.ret = saved
+        c.free = {n: env.get(("id", n)) for n in self.free_vars(c.body) if n in env and n not in dict(c.params)}
+        for n in c.free:
+            if env.get(("mut", n), False):
+                fail(self.w(c), f"the closure reads the `let mut` variable `{n}`: outside the translated subset")
+        env[s.name] = T("closure", c)
+        env[("mut", s.name)] = False
+        env[("id", s.name)] = object()
+
+    def free_vars(self, n, acc=None):
+        acc = set() if acc is None else acc
+        if isinstance(n, Node):
+            if n.kind == "var":
+                acc.add(n.name)
+            if n.kind == "call" and len(n.path) == 1:
+                acc.add(n.path[0])
+            for key, v in n.__dict__.items():
+                if key not in ("ty", "callee", "bin", "ret", "free", "closure"):
+                    self.free_vars(v, acc)
+        elif isinstance(n, (list, tuple)):
+            for x in n:
+                self.free_vars(x, acc)
+        return acc
+
+    def has_kind(self, n, kinds):
+        if isinstance(n, Node):
+            if n.kind in kinds:
+                return True
+            return any(self.has_kind(v, kinds) for key, v in n.__dict__.items() if key not in ("ty", "callee", "bin", "ret", "free", "closure"))
+        if isinstance(n, (list, tuple)):
+            return any(self.has_kind(x, kinds) for x in n)
+        return False
+
+    def no_shadow(self, names, env, node):
+        """the rest of the enclosing block is generated INSIDE this branch: a name bound here must not hide one that
+        the rest could mean"""
+        for nm in names:
+            if nm in env:
+                fail(self.w(node), f"`{nm}` is bound inside a branch that is followed by more code and hides an outer `{nm}`: "
+                     "outside the translated subset (rename it)")
+
+    def chrono_method(self, e, th, name, env):
+        ps, rty, lean, datelike = CHRONO_METHODS[(th, name)]
+        w = self.w(e)
+        if datelike and ("chrono::prelude", "Datelike") not in self.fi.imports:
+            fail(w, f"`.{name}()` is read as chrono's `Datelike::{name}`, but the file does not import `chrono::prelude::Datelike`")
+        if len(ps) != len(e.args):
+            fail(w, f".{name}(): {len(ps)} arguments expected")
+        for a, p in zip(e.args, ps):
+            unify(self.expr(a, env), self.chrono_type(p), self.w(a))
+        e.chrono = lean
+        return self.chrono_type(rty)
+
+    def chrono_type(self, text):
+        toks = [Tok("op" if not re.match(r"\w", x) else "id", x, 0) for x in text.split()] + [Tok("eof", "", 0)]
+        p = Parser(toks, "(tables of rs2lean.py)", set(self.structs), uses=set(STD_USES), enums=set(self.enums), modelled=True)
+        return p.type_()
 
     def place_root(self, p, env, what, index_ok=True):
         """`p` is a place that may be written: a `let mut` local, `self` of a `&mut self` method, or fields (and one
@@ -1531,6 +2230,44 @@ class Infer:
             return tv
         if k == "bool":
             return BOOL
+        if k == "unit":
+            return T("unit")
+        if k == "unreachable":
+            return TVar(where=w)  # diverges: any type
+        if k == "chronoconst":
+            return T("ext", CHRONO_CONSTS[e.path][0])
+        if k == "arraylit":
+            tv = TVar(where=w)
+            for x in e.elems:
+                unify(self.expr(x, env), tv, self.w(x))
+            return T("elems", tv)
+        if k == "call" and self.fi.modelled and len(e.path) == 1 and e.path[0] in FN_HOLES and e.path[0] not in env:
+            # a function of /repo that is not translated: the FUNCTION is a parameter of the definition
+            rel, ps, rty = FN_HOLES[e.path[0]]
+            if rel != self.fi.fname or e.path[0] not in self.fi.local_fns:
+                fail(w, f"`{e.path[0]}` is read as the function of {rel}, which has to define it and to be the calling file")
+            if len(ps) != len(e.args):
+                fail(w, f"{e.path[0]}: {len(ps)} arguments expected")
+            for a, pt in zip(e.args, ps):
+                unify(self.expr(a, env), self.chrono_type(pt), self.w(a))
+            e.fn_hole = e.path[0]
+            if e.path[0] not in self.fi.fn_holes:
+                self.fi.fn_holes.append(e.path[0])
+            return self.chrono_type(rty)
+        if k == "closure":
+            fail(w, "a closure here is outside the translated subset")
+        if k == "pvariant":
+            decl = dict(self.fi.penums[e.enum])
+            if e.name not in decl or len(decl[e.name]) != len(e.args):
+                fail(w, f"`{e.enum}::{e.name}`: not a variant with {len(e.args)} fields")
+            for a, pt in zip(e.args, decl[e.name]):
+                unify(self.expr(a, env), pt, self.w(a))
+            return T("penum", e.enum)
+        if k == "var" and e.name not in env and self.fi.modelled and e.name in CRATE_CONSTS:
+            mod = CRATE_CONSTS[e.name][0]
+            if (mod, e.name) not in self.fi.imports:
+                fail(w, f"`{e.name}` is read as `{mod}::{e.name}`, but the file does not import it from there")
+            return T("crateconst", e.name)
         if k == "var":
             if e.name not in env:
                 fail(w, f"unknown variable `{e.name}` (constants and statics are outside the translated subset)")
@@ -1556,6 +2293,35 @@ class Infer:
                     e.struct = t[1]
                     return ft
             fail(w, f"struct {t[1]} has no field {e.name}")
+        if k == "index" and strip_paren(e.idx).kind == "rangefrom":
+            # [iteration extension] `a[i..]` on an array that is a field: the slice of the elements from `i` on
+            t = prune(self.expr(e.e, env))
+            if isinstance(t, TVar) or t[0] != "array" or e.e.kind != "field":
+                fail(w, f"slicing of {show(t)} is outside the translated subset (an array `[T; N]` that is a field only)")
+            r = strip_paren(e.idx)
+            unify(self.expr(r.l, env), tint("usize"), self.w(r))
+            e.slice_from = r.l
+            return T("slice", t[1])
+        if k == "tuple":
+            return T("tuple", *[self.expr(x, env) for x in e.items])
+        if k == "rangefrom":
+            # `(a..)`: only `.zip(..)` can be called on it (see `iter_method`); nothing else accepts this type
+            t = self.expr(e.l, env)
+            self.need_int(t, e, "`..`")
+            return T("rangefrom", t)
+        if k == "closure":
+            fail(w, "a closure outside the argument of `find_map` / `map` is outside the translated subset")
+        if k == "iflet":
+            t = prune(self.expr(e.e, env))
+            inner = TVar(where=w)
+            unify(t, T("opt", inner), w)
+            env2 = dict(env)
+            env2[e.name] = inner
+            env2[("mut", e.name)] = False
+            ta = self.block(e.a, env2)
+            tb = self.block(e.b, env)
+            unify(ta, tb, w)
+            return ta
         if k == "index":
             t = prune(self.expr(e.e, env))
             if isinstance(t, TVar) or t[0] != "array":
@@ -1597,6 +2363,10 @@ class Infer:
                     if not isinstance(tt, TVar) and tt[0] == "struct" and op not in ("==", "!="):
                         self.need_derived(tt, w, f"`{op}`", "PartialOrd")
                         return
+                    if not isinstance(tt, TVar) and tt[0] == "ext" and (op in ("==", "!=") or tt[1] == "NaiveDate"):
+                        return  # chrono: `Weekday: Eq`; `NaiveDate: Ord` is the chronological order = the order of day numbers
+                    if not isinstance(tt, TVar) and tt[0] == "enum" and op in ("==", "!="):
+                        return  # a fieldless enum deriving PartialEq
                     if isinstance(tt, TVar) or tt[0] not in ("int", "bool") or (tt[0] == "bool" and op not in ("==", "!=")):
                         fail(w, f"`{op}` on {show(tt)} is outside the translated subset")
                 self.deferred.append(chk)
@@ -1628,6 +2398,9 @@ class Infer:
                     return
                 if isinstance(tt, TVar) or tt[0] != "int":
                     fail(w, f"`as` from {show(tt)} is outside the translated subset")
+                to = prune(e.to)
+                if isinstance(to, TVar) or to[0] != "int":
+                    fail(w, "`as _`: the target type cannot be determined / is not an integer type")
             self.deferred.append(chk)
             return e.to
         if k == "ref":
@@ -1669,12 +2442,35 @@ class Infer:
         if k == "match":
             ts = self.expr(e.scrut, env)
             res = TVar(where=w)
+            dup = getattr(e, "stmt_level", False) or contains_return(e.arms)
             for pat, body in e.arms:
+                aenv = env
                 if pat.kind == "lit":
                     unify(self.expr(pat, env), ts, self.w(pat))
                 elif pat.kind == "variant":
                     unify(self.expr(pat, env), ts, self.w(pat))
-                tb = self.block(body, env)
+                elif pat.kind == "pvariant":
+                    unify(T("penum", pat.enum), strip_ref(ts), self.w(pat))
+                    decl = dict(self.fi.penums[pat.enum])
+                    if pat.name not in decl or len(decl[pat.name]) != len(pat.binds):
+                        fail(self.w(pat), f"`{pat.enum}::{pat.name}`: not a variant with {len(pat.binds)} fields")
+                    aenv = dict(env)
+                    if dup:
+                        self.no_shadow(pat.binds, env, pat)
+                    for bn, bt in zip(pat.binds, decl[pat.name]):
+                        aenv[bn] = bt
+                        aenv[("mut", bn)] = False
+                        aenv[("id", bn)] = object()
+                elif pat.kind == "bindall":
+                    aenv = dict(env)
+                    if dup:
+                        self.no_shadow([pat.name], env, pat)
+                    aenv[pat.name] = ts
+                    aenv[("mut", pat.name)] = False
+                    aenv[("id", pat.name)] = object()
+                if dup:
+                    self.no_shadow(bound_names(body), aenv, body)
+                tb = self.block(body, aenv)
                 unify(tb, res, self.w(body))
 
             def chk(ts=ts):
@@ -1682,10 +2478,17 @@ class Infer:
                 pats = [p for p, _ in e.arms]
                 if isinstance(tt, TVar) and tt.lit:
                     tt = tint("i32")
-                if isinstance(tt, TVar) or tt[0] not in ("int", "enum"):
+                tt = strip_ref(tt)
+                if isinstance(tt, TVar) or tt[0] not in ("int", "enum", "penum"):
                     fail(w, f"`match` on {show(tt)} is outside the translated subset")
-                if tt[0] == "int":
-                    if pats[-1].kind != "wild":
+                if tt[0] == "penum":
+                    names = [p.name for p in pats if p.kind == "pvariant"]
+                    if len(set(names)) != len(names) or any(p.kind not in ("pvariant", "wild") for p in pats):
+                        fail(w, "the same variant in two arms / a pattern of another kind")
+                    if pats[-1].kind != "wild" and set(names) != {v for v, _ in self.fi.penums[tt[1]]}:
+                        fail(w, "the arms do not cover the enum")
+                elif tt[0] == "int":
+                    if pats[-1].kind not in ("wild", "bindall"):
                         fail(w, "a `match` on an integer needs a final `_` arm in the translated subset")
                     vals = [p.value for p in pats[:-1]]
                     if len(set(vals)) != len(vals):
@@ -1713,6 +2516,8 @@ class Infer:
             return T("struct", name)
         if k == "if":
             unify(self.expr(e.c, env), BOOL, self.w(e.c))
+            if getattr(e, "stmt_level", False) or contains_return(e.a) or contains_return(e.b):
+                self.no_shadow(bound_names(e.a) + bound_names(e.b), env, e)
             ta = self.block(e.a, env)
             tb = self.block(e.b, env)
             unify(ta, tb, w)
@@ -1722,11 +2527,35 @@ class Infer:
             if isinstance(t, TVar) or t[0] not in ("opt", "res"):
                 fail(w, f"`?` on {show(t)} (only `?` on an Option / a Result is translated)")
             r = prune(self.ret)
+            if isinstance(r, TVar) and getattr(self, "in_closure", 0):
+                unify(r, T(t[0], TVar(where=w)), w)  # the closure's result type is being inferred
+                r = prune(self.ret)
             if r[0] != t[0]:
                 fail(w, f"`?` on {show(t)} in a function that returns {show(r)}")
             return t[1]
         if k == "call":
             path = "::".join(e.path)
+            if self.fi.modelled and path in CHRONO_CALLS:
+                ps, rty, lean = CHRONO_CALLS[path]
+                if ("chrono", e.path[0]) not in self.fi.imports:
+                    fail(w, f"`{e.path[0]}` is read as `chrono::{e.path[0]}`, but the file does not import it from there")
+                if len(ps) != len(e.args):
+                    fail(w, f"{path}: {len(ps)} arguments expected")
+                for a, p in zip(e.args, ps):
+                    unify(self.expr(a, env), self.chrono_type(p), self.w(a))
+                e.chrono = lean
+                return self.chrono_type(rty)
+            if len(e.path) == 1 and e.path[0] in env and isinstance(env[e.path[0]], tuple) and env[e.path[0]][0] == "closure":
+                c = env[e.path[0]][1]
+                if len(c.params) != len(e.args):
+                    fail(w, f"{path}: {len(c.params)} arguments expected")
+                for n, ident in c.free.items():
+                    if env.get(("id", n)) is not ident:
+                        fail(w, f"the closure `{path}` reads `{n}`, which has been rebound since the closure was made: outside the translated subset")
+                for a, (pn, pt) in zip(e.args, c.params):
+                    unify(self.expr(a, env), self.conc(pt), self.w(a))
+                e.closure = c
+                return c.ret
             if path in EXTERNS:
                 ps = EXTERNS[path][0]
                 if len(ps) != len(e.args):
@@ -1743,6 +2572,14 @@ class Infer:
                 e.conv = to
                 self.lossless(t, tint(to), e)
                 return tint(to)
+            if len(e.path) == 2 and e.path[0] in INT_TYPES and e.path[1] == "try_from":
+                # [iteration extension] `T::try_from(e)` is `e.try_into()` towards `T`
+                if len(e.args) != 1:
+                    fail(w, "try_from takes one argument")
+                t = self.expr(e.args[0], env)
+                self.need_int(t, e, "try_from()")
+                e.tryfrom = e.path[0]
+                return T("res", tint(e.path[0]))
             if (len(e.path) == 1 and e.path[0] in ("max", "min") and e.path[0] in self.fi.uses) or \
                     (e.path in (["std", "cmp", "max"], ["std", "cmp", "min"])):
                 # std::cmp::max / min on a type with a total order (`Ord`)
@@ -1768,6 +2605,8 @@ class Infer:
                 return ta
             if len(e.path) == 2 and e.path[0] in ("Self", self.fi.self_ty):
                 key = (self.fi.self_ty, e.path[1])
+            elif len(e.path) == 2 and (e.path[0] in self.structs or e.path[0] in self.enums) and (e.path[0], e.path[1]) in self.fns:
+                key = (e.path[0], e.path[1])  # `Type::f(..)` of a translated type
             elif len(e.path) == 1:
                 key = (None, e.path[0])
                 if key in self.fns and self.fns[key].fname != self.fi.fname and \
@@ -1785,6 +2624,9 @@ class Infer:
             name = e.name
             rt = strip_ref(self.expr(e.e, env))  # auto-deref of the receiver
             rp = rt
+            it = self.iter_method(e, rp, env)  # [iteration extension]
+            if it is not None:
+                return it
             if name == "try_into":
                 self.noargs(e)
                 self.need_int(rt, e, "try_into()")
@@ -1826,6 +2668,47 @@ class Infer:
                     fail(w, f".ok() on {show(rp)}")
                 return T("opt", rp[1])
             th = None if isinstance(rp, TVar) else type_head(rp)
+            if not isinstance(rp, TVar) and rp[0] == "crateconst":
+                _, meth, rty, lean = CRATE_CONSTS[rp[1]]
+                if name != meth or e.args:
+                    fail(w, f"`{rp[1]}.{name}(..)` is outside the translated subset")
+                e.chrono = lean
+                e.chrono_const = True
+                return self.chrono_type(rty)
+            if not isinstance(rp, TVar) and rp[0] == "ext":
+                if (rp[1], name) not in CHRONO_METHODS:
+                    fail(w, f"chrono's `{rp[1]}::{name}` has no meaning in lean/OH/Model/RustChrono.lean: outside the translated subset")
+                return self.chrono_method(e, rp[1], name, env)
+            if name == "and_then":
+                # `opt.and_then(|x| e)`: `e` runs on `Some(x)` only
+                if isinstance(rp, TVar) or rp[0] != "opt":
+                    fail(w, f".and_then() on {show(rp)}")
+                if len(e.args) != 1 or e.args[0].kind != "closure" or len(e.args[0].params) != 1:
+                    fail(w, "only `and_then(|x| expr)` is translated")
+                c = e.args[0]
+                if contains_return(c.body):
+                    fail(w, "`?` / `return` inside the closure of `and_then`")
+                cenv = dict(env)
+                pn, pt = c.params[0]
+                if pt is not None:
+                    unify(self.conc(pt), rp[1], w)
+                cenv[pn] = rp[1]
+                cenv[("mut", pn)] = False
+                cenv[("id", pn)] = object()
+                inner = TVar(where=w)
+                unify(self.expr(c.body, cenv), T("opt", inner), w)
+                c.ty = T("opt", inner)
+                return T("opt", inner)
+            if th is not None and (th, name) in GETTERS and (th, name) in HOLES and (th, name) not in self.fns and \
+                    self.fi.fname in GETTER_FILES:
+                # [iteration extension] a getter of a by-value parameter: one parameter of the definition for all its calls
+                recv = strip_paren(e.e)
+                self.noargs(e)
+                if recv.kind != "var" or recv.name not in [pn for pn, _ in self.fi.node.params] or \
+                        prune(env.get(recv.name)) != prune(self.conc(dict(self.fi.node.params)[recv.name])):
+                    fail(w, f"the untranslated getter `.{name}()` on something else than a by-value parameter is outside the translated subset")
+                e.hole = self.getter_hole(recv.name, name, e.line)
+                return parse_type_str(HOLES[(th, name)], self.structs, self.enums)
             if th is not None and (th, name) in HOLES and (th, name) not in self.fns:
                 # a call that is not translated: its result is a parameter of the definition
                 for a in e.args:
@@ -1839,6 +2722,35 @@ class Infer:
                 self.fi.holes.append((name, e.line, ht))
                 e.hole = len(self.fi.holes)
                 return ht
+            if name == "or_else" and len(e.args) == 1 and e.args[0].kind == "thunk" and Gen.has_return(None, e.args[0].e) \
+                    and not isinstance(rp, TVar) and rp[0] == "opt":
+                # [iteration extension] `?` / `return` inside the closure leave the CLOSURE, whose result type is the receiver's
+                saved, self.ret = self.ret, rp
+                th = e.args[0]
+                t = self.expr(th.e, env)
+                if not (th.e.kind == "blockexpr" and th.e.b.tail.kind == "return"):
+                    unify(t, rp, w)
+                self.ret = saved
+                th.ty = rp
+                e.closure_ret = True
+                return rp
+            if name in ("expect", "unwrap") and not isinstance(rp, TVar) and rp[0] == "externret":
+                # [iteration extension] the payload of the library call: its arguments; whether it is `Some`: an oracle
+                if name == "expect":
+                    if len(e.args) != 1 or e.args[0].kind != "str":
+                        fail(w, "expect takes a string literal")
+                    e.msg = e.args[0].value
+                else:
+                    self.noargs(e)
+                    e.msg = "called `Option::unwrap()` on a `None` value"
+                if rp[1] not in ORACLES or strip_paren(e.e).kind != "call":
+                    fail(w, f".{name}() on this value is outside the translated subset")
+                e.oracle = rp[1]
+                if not hasattr(self.fi, "oracles"):
+                    self.fi.oracles = []
+                if rp[1] not in self.fi.oracles:
+                    self.fi.oracles.append(rp[1])
+                return T("extval", rp[1])
             if name == "or_else":
                 if isinstance(rp, TVar) or rp[0] != "opt":
                     fail(w, f".or_else() on {show(rp)}")
@@ -1943,6 +2855,151 @@ class Infer:
         if e.args:
             fail(self.w(e), f".{e.name}() takes no argument")
 
+    # [iteration extension] ----------------------------------------------------------------------
+    # Iterator chains `SOURCE.iter() [.enumerate() | .copied() | .skip(n)]* [.map(f)]* .find_map(g) | .sum()`:
+    # "iter" is a type of its own for the inference (`impl Iterator<Item = T>`); it only exists between the source and
+    # the consumer (it cannot be bound, returned or passed on: `lty` has no Lean type for it).
+    ITER_OPS = ("enumerate", "copied", "skip", "map", "find_map", "sum")
+
+    def iter_method(self, e, rp, env):
+        name, w = e.name, self.w(e)
+        if isinstance(rp, TVar):
+            return None
+        if name == "iter" and rp[0] in ("array", "slice", "deque"):
+            self.noargs(e)
+            e.iterop = "iter"
+            return T("iter", T("ref", rp[1]))
+        if rp[0] == "opt" and name == "map":
+            # `Option::map(f)`: `f` runs at most once
+            if len(e.args) != 1:
+                fail(w, "map takes one argument")
+            e.optmap = True
+            r = TVar(where=w)
+            self.fn_arg(e.args[0], rp[1], r, env)
+            return T("opt", r)
+        if rp[0] == "deque" and name == "get":
+            if len(e.args) != 1:
+                fail(w, "get takes one argument")
+            unify(self.expr(e.args[0], env), tint("usize"), self.w(e.args[0]))
+            e.deque_get = True
+            return T("opt", T("ref", rp[1]))
+        if rp[0] == "rangefrom" and name == "zip":
+            # `(a..).zip(iter)`: the counter is advanced BEFORE the other iterator is pulled (`Zip::next`)
+            if len(e.args) != 1:
+                fail(w, "zip takes one argument")
+            ta = prune(self.expr(e.args[0], env))
+            if isinstance(ta, TVar) or ta[0] != "iter" or getattr(strip_paren(e.args[0]), "after_map", False):
+                fail(w, "`(a..).zip(x)`: `x` has to be an iterator chain without `map` in the translated subset")
+            e.iterop = "zipfrom"
+            e.after_map = True  # no `enumerate` / `skip` / `copied` after the zip
+            return T("iter", T("tuple", rp[1], ta[1]))
+        if rp[0] != "iter":
+            return None
+        if name not in self.ITER_OPS:
+            fail(w, f"iterator method `.{name}()` is outside the translated subset")
+        e.iterop = name
+        elem = rp[1]
+        if getattr(strip_paren(e.e), "after_map", False) and name in ("enumerate", "copied", "skip"):
+            fail(w, f"`.{name}()` after `.map(..)` is outside the translated subset")
+        if name == "enumerate":
+            self.noargs(e)
+            return T("iter", T("tuple", tint("usize"), elem))
+        if name == "copied":
+            self.noargs(e)
+            pe = prune(elem)
+            if isinstance(pe, TVar) or pe[0] != "ref":
+                fail(w, f".copied() on an iterator over {show(pe)} (not references)")
+            return T("iter", pe[1])
+        if name == "skip":
+            if len(e.args) != 1:
+                fail(w, "skip takes one argument")
+            unify(self.expr(e.args[0], env), tint("usize"), self.w(e.args[0]))
+            return rp
+        if name == "sum":
+            return self.iter_sum(e, rp, env)
+        if len(e.args) != 1:
+            fail(w, f"{name} takes one argument")
+        nholes = len(self.fi.holes)
+        if name == "map":
+            e.after_map = True
+            r = T("iter", self.fn_arg(e.args[0], elem, TVar(where=w), env))
+        else:  # find_map
+            payload = TVar(where=w)
+            self.fn_arg(e.args[0], elem, T("opt", payload), env)
+            r = T("opt", payload)
+        if len(self.fi.holes) != nholes:
+            fail(w, "an untranslated call (HOLES) inside a closure that runs once per element is outside the translated subset")
+        return r
+
+    def getter_hole(self, param, getter, line):
+        hn = f"@{param}.{getter}"
+        for n, (x, _, _) in enumerate(self.fi.holes):
+            if x == hn:
+                return n + 1
+        ptype = strip_ref(self.conc(dict(self.fi.node.params)[param]))[1]
+        self.fi.holes.append((hn, line, parse_type_str(HOLES[(ptype, getter)], self.structs, self.enums)))
+        return len(self.fi.holes)
+
+    def iter_sum(self, e, rp, env):
+        """`.sum()`: `impl Sum for <integer type>`; the type is the element type (no `Sum<&T>` here)"""
+        self.noargs(e)
+        self.need_int(rp[1], e, "sum()")
+        return rp[1]
+
+    def fn_arg(self, a, pt, rt, env):
+        """the function passed to an adaptor: a closure `|pat| body` (it sees the variables in scope) or the path of a
+        translated function `Type::f`; its parameter has type `pt`, the type of its result is unified with `rt`"""
+        w = self.w(a)
+        if a.kind == "variant":
+            tyname = self.fi.self_ty if a.enum == "Self" else a.enum
+            callee = self.fns.get((tyname, a.name))
+            if callee is None or callee.is_const:
+                fail(w, f"`{a.enum}::{a.name}` is not a translated function")
+            f = callee.node
+            if f.mut_self or callee.holes or any(b is not None for b in f.tparams.values()) or \
+                    len(f.params) + (1 if f.has_self else 0) != 1:
+                fail(w, f"`{a.enum}::{a.name}` as a function value: only a translated function of one argument (no `&mut self`, no generics, no untranslated calls)")
+            want = callee.self_t if f.has_self else callee.conc(f.params[0][1])
+            unify(strip_ref(pt), strip_ref(want), w)
+            unify(callee.conc(f.ret), rt, w)
+            a.fn_callee = callee
+            self.fi.calls.append(callee.key)
+            return rt
+        if a.kind != "closure":
+            fail(w, "only a closure `|x| ..` or the path of a translated function is translated as the argument of an adaptor")
+        if a.pat is None:
+            fail(w, "closures with several parameters or type annotations are outside the translated subset (as the argument of an adaptor)")
+        env2 = dict(env)
+        if isinstance(a.pat, list):
+            tvs = [TVar(where=w) for _ in a.pat]
+            unify(pt, T("tuple", *tvs), w)
+            for nm, tv in zip(a.pat, tvs):
+                env2[nm] = tv
+                env2[("mut", nm)] = False
+        else:
+            env2[a.pat] = pt
+            env2[("mut", a.pat)] = False
+        for nm in (a.pat if isinstance(a.pat, list) else [a.pat]):
+            if re.fullmatch(r"(tmp|ext)\d+", nm):
+                fail(w, f"closure parameter name {nm} clashes with the translator's temporaries")
+        # `?` / `return` inside the closure leave the CLOSURE: its result type takes the place of the function's
+        rr = prune(rt)
+        if isinstance(rr, TVar) and Gen.has_return(None, a.e):
+            fail(w, "`?` / `return` inside a closure whose result type is not known to be an Option")
+        saved, self.ret = self.ret, rt
+        # no write to the enclosing function's state from inside a closure
+        for key in list(env2):
+            if isinstance(key, tuple) and key[0] == "mut":
+                env2[key] = False
+        a.in_mut_fn = self.fi.node.mut_self
+        t = self.expr(a.e, env2)
+        if not (a.e.kind == "blockexpr" and a.e.b.tail.kind == "return"):
+            unify(t, rt, w)
+        self.ret = saved
+        a.ret_t = rt
+        return rt
+    # ---------------------------------------------------------------------------------------------
+
     def call(self, e, callee, args, env, recv_t=None):
         ps = callee.node.params
         if len(ps) != len(args):
@@ -1969,6 +3026,13 @@ class Infer:
                     return self.need_ord(tt, self.w(e), callee.lean_name, total=total)
                 if tt[0] == "struct":
                     return self.need_derived(tt, self.w(e), callee.lean_name, "Ord" if total else "PartialOrd")
+                if tt[0] == "enum":
+                    # a fieldless enum deriving the order: the order of the discriminants
+                    tr = "Ord" if total else "PartialOrd"
+                    if tr not in self.fi.derives.get(tt[1], ()):
+                        fail(self.w(e), f"{callee.lean_name} instantiated at {tt[1]}, which does not `#[derive({tr})]`")
+                    self.fi.ordered_structs.add(tt[1])
+                    return
                 fail(self.w(e), f"{callee.lean_name} instantiated at {show(tt)} is outside the translated subset")
             self.deferred.append(chk)
         if inst:
@@ -1991,6 +3055,32 @@ class Infer:
             e.callee = callee
             self.fi.calls.append(callee.key)
             return conc(callee.node.ret)
+        if (callee.holes or any(strip_ref(callee.conc(pt))[0] == "opaque" for _, pt in ps)) and not getattr(callee, "oracles", None) \
+                and not callee.node.mut_self:
+            # [iteration extension] hole propagation: the opaque arguments have to be plain variables (parameters) of the
+            # same opaque type; every untranslated call of the callee becomes a hole of the caller at this call site
+            for a, (pn, pt) in zip(args, ps):
+                ta = self.expr(a, env)
+                if strip_ref(callee.conc(pt))[0] == "opaque":
+                    if strip_paren(a).kind != "var" or isinstance(strip_ref(ta), TVar) or strip_ref(ta) != strip_ref(callee.conc(pt)):
+                        fail(self.w(a), f"an argument of opaque type of {callee.lean_name} has to be a parameter of that type")
+                else:
+                    unify(ta, callee.conc(pt), self.w(a))
+            e.hole_args = []
+            argvar = {pn: strip_paren(a).name for a, (pn, pt) in zip(args, ps) if strip_ref(callee.conc(pt))[0] == "opaque"}
+            for hn, hl, ht in callee.holes:
+                if hn.startswith("@"):
+                    cp, getter = hn[1:].split(".")
+                    av = argvar[cp]
+                    if av not in [pn for pn, _ in self.fi.node.params] or self.fi.fname not in GETTER_FILES:
+                        fail(self.w(e), f"the argument `{av}` of {callee.lean_name} has to be a parameter of the calling function")
+                    e.hole_args.append(self.getter_hole(av, getter, e.line))
+                    continue
+                self.fi.holes.append((f"{hn}(..)` inside `{callee.node.name}", e.line, ht))
+                e.hole_args.append(len(self.fi.holes))
+            e.callee = callee
+            self.fi.calls.append(callee.key)
+            return callee.conc(callee.node.ret)
         if callee.holes or any(strip_ref(callee.conc(pt))[0] == "opaque" for _, pt in ps):
             fail(self.w(e), f"call of {callee.lean_name}, which has opaque parameters / untranslated calls, is outside the translated subset")
         conc = callee.conc
@@ -2028,6 +3118,9 @@ def lname(n):
 
 def lty(t):
     t = prune(t)
+    if t[0] == "elems":
+        inner = lty(t[1])
+        return f"List {inner if ' ' not in inner else '(' + inner + ')'}"
     if t[0] == "int":
         return "Int"
     if t[0] == "bool":
@@ -2036,12 +3129,26 @@ def lty(t):
         return t[1]
     if t[0] == "ref":
         return lty(t[1])  # a shared reference to a value is the value
+    if t[0] == "tuple":  # [iteration extension]
+        parts = [lty(x) for x in t[1:]]
+        return " × ".join(p if " " not in p else f"({p})" for p in parts)
+    if t[0] == "deque":
+        inner = lty(t[1])
+        return f"List {inner if ' ' not in inner else '(' + inner + ')'}"
+    if t[0] == "extval":
+        return " × ".join("Int" for _ in EXTERNS[t[1]][0])
+    if t[0] in ("iter", "slice", "rangefrom"):
+        fail("(rs2lean)", f"a value of type {show(t)} cannot be bound, passed or returned in the translated subset")
     if t[0] in UNARY:
         inner = lty(t[1])
         head = {"opt": "Option", "res": "Option", "range": "Range", "rangeincl": "RangeInclusive"}[t[0]]
         return f"{head} {inner}" if " " not in inner else f"{head} ({inner})"
-    if t[0] in ("tparam", "enum"):
+    if t[0] in ("tparam", "enum", "penum"):
         return t[1]
+    if t[0] == "ext":
+        return "Int"  # chrono's types as the values of the calendar model, see CHRONO_TYPES
+    if t[0] == "unit":
+        return "Unit"
     if t[0] == "array":
         inner = lty(t[1])
         return f"Vector {inner if ' ' not in inner else '(' + inner + ')'} {t[2]}"
@@ -2096,18 +3203,22 @@ class Gen:
         return k
 
     def has_return(self, b):
-        def walk(n):
-            if isinstance(n, Node):
-                if n.kind in ("return", "try", "letsome"):
-                    return True
-                return any(walk(v) for key, v in n.__dict__.items() if key not in ("ty", "callee", "bin"))
-            if isinstance(n, (list, tuple)):
-                return any(walk(x) for x in n)
-            return False
-        return walk(b)
+        return contains_return(b)
+
+    def deeper(self, k):
+        """the continuation `k`, whose text was laid out for the enclosing block, one level deeper (inside a branch):
+        Lean wants the right-hand side of a `match` alternative at or right of its `|`"""
+        def k1(term):
+            return "\n".join(("  " + ln) if ln else ln for ln in k(term).split("\n"))
+        return k1
+
+    in_closure = 0
+    closed_base = 0  # the value of `closed` where the innermost local closure body starts
 
     def ret_term(self, term):
         """the function returns `term`; a `&mut self` method also returns the state it leaves in `self`"""
+        if self.in_closure:
+            return f".ok {atom(term)}"  # `?` inside a local closure leaves the closure
         if self.fi.node.mut_self:
             return f".ok ({term}, self)"
         return f".ok {atom(term)}"
@@ -2133,7 +3244,14 @@ class Gen:
                 continue  # never looked into
             params.append(f"({lname(pn)} : {lty(self.conc(pt))})")
         for n, (hn, hl, ht) in enumerate(self.fi.holes):
-            params.append(f"(ext{n + 1} : {lty(ht)})")
+            params.append(f"({hole_lean_names(self.fi.holes)[n]} : {lty(ht)})")
+        for hn in sorted(self.fi.fn_holes):
+            # an untranslated function of /repo (FN_HOLES): the function itself is a parameter
+            _, ps, rty = FN_HOLES[hn]
+            ct = Infer(self.fi, self.structs, set(), {}, {}).chrono_type
+            params.append(f"(ext_{hn} : {' → '.join(lty(ct(x)) if ' ' not in lty(ct(x)) else '(' + lty(ct(x)) + ')' for x in ps + [rty])})")
+        for o in getattr(self.fi, "oracles", []):  # [iteration extension]
+            params.append(f"({ORACLES[o][0]} : {ORACLES[o][1]})")
         self.ret_ty = self.conc(f.ret)
         rt = lty(self.ret_ty)
         if f.mut_self:
@@ -2159,10 +3277,19 @@ class Gen:
             s = b.stmts[i]
             if re.fullmatch(r"tmp\d+", getattr(s, "name", "")):
                 fail(f"{self.fi.fname}:{s.line}", f"local name {s.name} clashes with the translator's temporaries")
+            if s.kind == "let" and strip_paren(s.e).kind == "closure":
+                return go(i + 1)  # a local closure: expanded where it is called
             if s.kind == "let":
                 def k2(term, s=s):
                     return f"{self.ind(depth)}let {lname(s.name)} := {term}\n" + go(i + 1)
                 return self.cg_root(s.e, k2, depth)
+            if s.kind == "dassert":
+                msg = ("assertion failed: " + s.text).replace("\\", "\\\\").replace('"', '\\"')
+
+                def k2(term, s=s):
+                    return (f"{self.ind(depth)}if {term} then\n" + go(i + 1) + "\n"
+                            f"{self.ind(depth)}else .error (.panic \"{msg}\")")
+                return self.cg(s.c, k2, depth)
             if s.kind == "exprstmt":
                 return self.cg_root(s.e, lambda term: go(i + 1), depth)
             if s.kind == "assign":
@@ -2178,6 +3305,11 @@ class Gen:
                             f"{self.ind(depth)}| none =>\n" + self.cg(s.orelse, self.RET(depth + 1), depth + 1) + "\n"
                             f"{self.ind(depth)}| some {lname(s.name)} =>\n" + go(i + 1))
                 return self.cg(s.e, k2, depth)
+            if s.kind == "lettuple":
+                # [iteration extension] `let (a, b) = e;`
+                def k2(term, s=s):
+                    return self.bind_tuple(s.names, term, depth) + go(i + 1)
+                return self.cg_root(s.e, k2, depth)
             if s.kind == "assert":
                 v = lname(s.name)
                 msg = f"assertion failed: {s.text}"
@@ -2243,6 +3375,33 @@ class Gen:
             return "true" if e.value else "false"
         if k == "var":
             return lname(e.name)
+        if k == "unit":
+            return "()"
+        if k == "chronoconst":
+            return CHRONO_CONSTS[e.path][1]
+        if k == "arraylit":
+            parts = [self.pure(x) for x in e.elems]
+            return None if any(x is None for x in parts) else "[" + ", ".join(parts) + "]"
+        if k == "call" and getattr(e, "fn_hole", None):
+            parts = [self.pure(x) for x in e.args]
+            return None if any(x is None for x in parts) else " ".join([f"ext_{e.fn_hole}"] + [atom(x) for x in parts])
+        if k == "method" and getattr(e, "chrono_const", False):
+            return e.chrono
+        if k in ("call", "method") and getattr(e, "chrono", None):
+            parts = [self.pure(x) for x in ([e.e] if k == "method" else []) + list(e.args)]
+            if any(x is None for x in parts):
+                return None
+            return " ".join([e.chrono] + [atom(x) for x in parts])
+        if k == "pvariant":
+            parts = [self.pure(x) for x in e.args]
+            if any(x is None for x in parts):
+                return None
+            return " ".join([f"{e.enum}.{lname(e.name)}"] + [atom(x) for x in parts])
+        if k == "method" and e.name == "and_then" and e.args and e.args[0].kind == "closure":
+            a, b = self.pure(e.e), self.pure(e.args[0].body)
+            if a is None or b is None:
+                return None
+            return f"Option.bind {atom(a)} (fun {lname(e.args[0].params[0][0])} => {b})"
         if k == "self":
             return "self"
         if k in ("paren", "ref"):
@@ -2275,6 +3434,17 @@ class Gen:
             if b is None:
                 return None
             return b if e.deref_kind == "ref" else f"{atom(b)}.{field_name('0')}"
+        if k == "call" and getattr(e, "tryfrom", None):  # [iteration extension]
+            b = self.pure(e.args[0])
+            return None if b is None else f"tryInto .{e.tryfrom} {atom(b)}"
+        if k == "method" and getattr(e, "deque_get", False):
+            b, a = self.pure(e.e), self.pure(e.args[0])
+            return None if a is None or b is None else f"{atom(b)}[{int_atom(a)}.toNat]?"
+        if k == "method" and (getattr(e, "oracle", None) or getattr(e, "optmap", False) or getattr(e, "closure_ret", False)):
+            return None
+        if k == "tuple":  # [iteration extension]
+            parts = [self.pure(x) for x in e.items]
+            return None if any(p is None for p in parts) else "(" + ", ".join(parts) + ")"
         if k == "none":
             return "none"
         if k == "some":
@@ -2298,7 +3468,7 @@ class Gen:
         if k == "variant":
             return f"{e.enum_name}.{lname(e.name)}"
         if k == "method" and getattr(e, "hole", None):
-            return "()" if e.hole == -1 else f"ext{e.hole}"
+            return "()" if e.hole == -1 else hole_lean_names(self.fi.holes)[e.hole - 1]
         if k == "blockexpr" and not e.b.stmts and e.b.tail.kind != "return":
             return self.pure(e.b.tail)
         if k == "method" and e.name == "unwrap_or":
@@ -2392,6 +3562,53 @@ class Gen:
         I = self.ind(depth)
         if kind in ("paren", "ref"):
             return self.cg(e.e, k, depth)
+        if kind == "unreachable":
+            return f"{I}.error (.panic \"internal error: entered unreachable code\")"
+        if kind == "arraylit":
+            return self.cg_args(e.elems, lambda ts: k("[" + ", ".join(ts) + "]"), depth)
+        if kind == "call" and getattr(e, "fn_hole", None):
+            return self.cg_args(e.args, lambda ts: k(" ".join([f"ext_{e.fn_hole}"] + [atom(x) for x in ts])), depth)
+        if kind in ("call", "method") and getattr(e, "chrono", None):
+            return self.cg_args(([e.e] if kind == "method" else []) + list(e.args),
+                                lambda ts: k(" ".join([e.chrono] + [atom(x) for x in ts])), depth)
+        if kind == "pvariant":
+            return self.cg_args(e.args, lambda ts: k(" ".join([f"{e.enum}.{lname(e.name)}"] + [atom(x) for x in ts])), depth)
+        if kind == "call" and getattr(e, "closure", None):
+            # the call of a local closure: its body, with the arguments bound to its parameters, as a closed
+            # sub-computation (`?` inside it leaves the closure, not the function)
+            c = e.closure
+
+            def kc(terms):
+                v = self.fresh()
+                tmps = [self.fresh() for _ in terms]
+                J = self.ind(depth + 2)
+                lets = "".join(f"{J}let {t} := {a}\n" for t, a in zip(tmps, terms))
+                lets += "".join(f"{J}let {lname(pn)} := {t}\n" for (pn, _), t in zip(c.params, tmps))
+                self.closed += 1
+                self.in_closure += 1
+                saved_base, self.closed_base = self.closed_base, self.closed
+                inner = self.cg(c.body, self.PURE_RET(depth + 2), depth + 2)
+                self.closed_base = saved_base
+                self.in_closure -= 1
+                self.closed -= 1
+                return f"{I}bnd (\n{lets}{inner}) fun {v} =>\n" + k(v)
+            return self.cg_args(e.args, kc, depth)
+        if kind == "method" and e.name == "and_then" and e.args and e.args[0].kind == "closure":
+            c = e.args[0]
+
+            def ka(a):
+                v = self.fresh()
+                self.closed += 1
+                inner = self.cg(c.body, self.PURE_RET(depth + 2), depth + 2)
+                self.closed -= 1
+                return (f"{I}bnd (match {a} with\n{I}  | none => .ok none\n{I}  | some {lname(c.params[0][0])} =>\n{inner}) fun {v} =>\n" + k(v))
+            return self.cg(e.e, ka, depth)
+        if kind in ("tuple", "iflet") or (kind == "method" and getattr(e, "iterop", None)) or \
+                (kind == "index" and getattr(e, "slice_from", None) is not None) or \
+                (kind == "call" and getattr(e, "tryfrom", None)) or \
+                (kind == "method" and (getattr(e, "deque_get", False) or getattr(e, "oracle", None) or getattr(e, "optmap", False)
+                                       or getattr(e, "closure_ret", False))):
+            return self.cg_iter_ext(e, k, depth)  # [iteration extension]
         if kind == "range":
             return self.cg(e.l, lambda l: self.cg(e.r, lambda r: k(self.range_term(e, l, r)), depth), depth)
         if kind == "call" and getattr(e, "cmpfn", None):
@@ -2473,6 +3690,13 @@ class Gen:
                 if getattr(k, "is_ret", False):
                     return (f"{I}if {c} then\n" + self.block(e.a, self.RET(depth + 1), depth + 1) + f"\n{I}else\n"
                             + self.block(e.b, self.RET(depth + 1), depth + 1))
+                if getattr(e, "stmt_level", False) or self.has_return(e.a) or self.has_return(e.b):
+                    # the branches assign / return: what follows is generated inside each of them (the inference
+                    # checked that no name bound in a branch hides an outer one)
+                    if self.closed > self.closed_base:
+                        fail(f"{self.fi.fname}:{e.line}", "`return` / an assignment inside an `if` inside a closed sub-expression (an operand) is outside the translated subset")
+                    k1 = self.deeper(k)
+                    return (f"{I}if {c} then\n" + self.block(e.a, k1, depth + 1) + f"\n{I}else\n" + self.block(e.b, k1, depth + 1))
                 v = self.fresh()
                 self.closed += 1
                 if self.has_return(e.a) or self.has_return(e.b):
@@ -2520,7 +3744,10 @@ class Gen:
             txt = f"{I}bnd (\n" + self.block(e.b, self.PURE_RET(depth + 2), depth + 2) + f") fun {v} =>\n"
             self.closed -= 1
             return txt + k(v)
-        if kind == "match" and not getattr(k, "is_ret", False) and any(b.stmts for _, b in e.arms) and not getattr(e, "closed_done", False):
+        if kind == "match" and (getattr(e, "stmt_level", False) or self.has_return(e.arms)) and not getattr(k, "is_ret", False) and self.closed > self.closed_base:
+            fail(f"{self.fi.fname}:{e.line}", "`return` / an assignment inside a `match` inside a closed sub-expression (an operand) is outside the translated subset")
+        if kind == "match" and not getattr(k, "is_ret", False) and any(b.stmts for _, b in e.arms) and not getattr(e, "closed_done", False) \
+                and not (getattr(e, "stmt_level", False) or self.has_return(e.arms)):
             # arms that bind names: a closed sub-computation, as above
             if self.has_return(e):
                 fail(f"{self.fi.fname}:{e.line}", "`?` / `return` inside a `match` with statements whose value is used by an enclosing expression")
@@ -2532,18 +3759,24 @@ class Gen:
             e.closed_done = False
             return txt + k(v)
         if kind == "match":
+            k_arm = k if getattr(k, "is_ret", False) or not (getattr(e, "stmt_level", False) or self.has_return(e.arms)) else self.deeper(k)
+
             def ks(v):
-                is_int = prune(e.scrut.ty)[0] == "int"
+                is_int = strip_ref(e.scrut.ty)[0] == "int"
                 out = []
                 for n, (pat, body) in enumerate(e.arms):
-                    arm = self.block(body, k, depth + 1)
+                    arm = self.block(body, k_arm, depth + 1)
                     if is_int:
-                        if pat.kind == "wild":
+                        if pat.kind == "bindall":
+                            out.append(f"{I}else\n{self.ind(depth + 1)}let {lname(pat.name)} := {v}\n{arm}")
+                        elif pat.kind == "wild":
                             out.append(f"{I}else\n{arm}")
                         else:
                             out.append(f"{I}{'if' if n == 0 else 'else if'} {v} = {lit(pat.value)} then\n{arm}")
                     else:
                         pt = "_" if pat.kind == "wild" else f".{lname(pat.name)}"
+                        if pat.kind == "pvariant":
+                            pt = " ".join([pt] + [lname(b) for b in pat.binds])
                         out.append(f"{I}| {pt} =>\n{arm}")
                 if is_int:
                     if len(e.arms) == 1:
@@ -2604,6 +3837,189 @@ class Gen:
             return self.cg_call(e, e.callee, e.e, e.args, k, depth)
         fail(f"{self.fi.fname}:{e.line}", f"cannot translate expression kind {kind}")
 
+    # [iteration extension] ----------------------------------------------------------------------
+    def bind_tuple(self, names, term, depth):
+        """`let a := t.1`, `let b := t.2` (.., the last one `t.2.2`) for the components of the tuple `term`"""
+        I, out = self.ind(depth), ""
+        for n, nm in enumerate(names):
+            if re.fullmatch(r"tmp\d+", nm):
+                fail(f"{self.fi.fname}:{self.fi.node.line}", f"local name {nm} clashes with the translator's temporaries")
+            proj = ".2" * n + (".1" if n < len(names) - 1 else "")
+            out += f"{I}let {lname(nm)} := {atom(term)}{proj}\n"
+        return out
+
+    def cg_iter_ext(self, e, k, depth):
+        kind, I = e.kind, self.ind(depth)
+        if kind == "tuple":
+            return self.cg_args(e.items, lambda ts: k("(" + ", ".join(ts) + ")"), depth)
+        if kind == "iflet":
+            def ks(s):
+                x = lname(e.name)
+                if getattr(k, "is_ret", False):
+                    a = self.block(e.a, self.RET(depth + 1), depth + 1)
+                    b = self.block(e.b, self.RET(depth + 1), depth + 1)
+                    if "match " in a:
+                        a = f"{I}  (\n{a})"  # the arms of an inner `match` must not swallow the `none` arm below
+                    return f"{I}match {s} with\n{I}| some {x} =>\n{a}\n{I}| none =>\n{b}"
+                v = self.fresh()
+                self.closed += 1
+                if self.has_return(e.a) or self.has_return(e.b):
+                    fail(f"{self.fi.fname}:{e.line}", "`return` / `?` inside an `if let` whose value is used by an enclosing expression")
+                a = self.block(e.a, self.PURE_RET(depth + 2), depth + 2)
+                b = self.block(e.b, self.PURE_RET(depth + 2), depth + 2)
+                if "match " in a:
+                    a = f"{I}    (\n{a})"
+                txt = f"{I}bnd (match {s} with\n{I}  | some {x} =>\n{a}\n{I}  | none =>\n{b}) fun {v} =>\n"
+                self.closed -= 1
+                return txt + k(v)
+            return self.cg(e.e, ks, depth)
+        if kind == "index":
+            # `base[i..]`: the index is evaluated, then checked against the length (a panic outcome)
+            base = self.pure(e.e)
+            if base is None:
+                fail(f"{self.fi.fname}:{e.line}", "only an array that is a field is sliced in the translated subset")
+
+            def ki(i):
+                v = self.fresh()
+                return f"{I}bnd (sliceFrom {atom(base)}.toList {int_atom(i)}) fun {v} =>\n" + k(v)
+            return self.cg(e.slice_from, ki, depth)
+        if kind == "call":  # `T::try_from(e)`
+            return self.cg(e.args[0], lambda a: k(f"tryInto .{e.tryfrom} {atom(a)}"), depth)
+        if getattr(e, "deque_get", False):
+            return self.cg(e.e, lambda b: self.cg(e.args[0], lambda a: k(f"{atom(b)}[{int_atom(a)}.toNat]?"), depth), depth)
+        if getattr(e, "oracle", None):
+            # `EXTERN(args).expect("..")`: the arguments, if the library call returns `Some` (an oracle parameter)
+            def kx(terms):
+                v = self.fresh()
+                return (f"{I}if {ORACLES[e.oracle][0]} {' '.join(atom(t) for t in terms)} then\n"
+                        f"{I}let {v} := ({', '.join(terms)})\n" + k(v) + f"\n{I}else .error (.panic \"{e.msg}\")")
+            return self.cg_args(strip_paren(e.e).args, kx, depth)
+        if getattr(e, "optmap", False) or getattr(e, "closure_ret", False):
+            f = e.args[0]
+            saved = (getattr(self, "in_closure", 0), self.ret_ty, self.closed, self.allow_mut)
+
+            def ko(o):
+                v, v2 = self.fresh(), self.fresh()
+                self.in_closure, self.closed, self.allow_mut = saved[0] + 1, self.closed + 1, None
+                if getattr(e, "optmap", False):
+                    if f.kind != "closure":
+                        fail(f"{self.fi.fname}:{e.line}", "`Option::map` with a function path is outside the translated subset")
+                    self.ret_ty = None
+                    pre = self.bind_tuple(f.pat, v2, depth + 2) if isinstance(f.pat, list) else f"{self.ind(depth + 2)}let {lname(f.pat)} := {v2}\n"
+                    body = f.e.b if f.e.kind == "blockexpr" else Node("block", f.e.line, stmts=[], tail=f.e)
+
+                    def kk(term):
+                        return f"{self.ind(depth + 2)}.ok (some {atom(term)})"
+                    inner = pre + self.block(body, kk, depth + 2)
+                    txt = f"{I}bnd (match {o} with\n{I}  | none => .ok none\n{I}  | some {v2} =>\n{inner}) fun {v} =>\n"
+                else:
+                    self.ret_ty = e.ty
+                    body = f.e.b if f.e.kind == "blockexpr" else Node("block", f.e.line, stmts=[], tail=f.e)
+                    inner = self.block(body, self.RET(depth + 2), depth + 2)
+                    txt = f"{I}bnd (match {o} with\n{I}  | some {v2} => .ok (some {v2})\n{I}  | none =>\n{inner}) fun {v} =>\n"
+                self.in_closure, self.ret_ty, self.closed, self.allow_mut = saved
+                return txt + k(v)
+            return self.cg(e.e, ko, depth)
+        # an iterator chain, from its consumer
+        if e.iterop not in ("find_map", "sum"):
+            fail(f"{self.fi.fname}:{e.line}", f"an iterator that is not consumed by `find_map` / `sum` here is outside the translated subset")
+        stages, n = [], strip_paren(e.e)
+        while n.kind == "method" and getattr(n, "iterop", None) in ("enumerate", "copied", "skip", "map"):
+            stages.append(n)
+            n = strip_paren(n.e)
+        zipn = None
+        if n.kind == "method" and getattr(n, "iterop", None) == "zipfrom":
+            # `(start..).zip(CHAIN)`: CHAIN is walked down in the same way
+            zipn = n
+            if e.iterop != "find_map" or any(st.iterop != "map" for st in stages):
+                fail(f"{self.fi.fname}:{e.line}", "after `(a..).zip(..)` only `map` and `find_map` are translated")
+            n = strip_paren(n.args[0])
+            zstages = []
+            while n.kind == "method" and getattr(n, "iterop", None) in ("enumerate", "copied", "skip"):
+                zstages.append(n)
+                n = strip_paren(n.e)
+            stages = stages + zstages
+        if not (n.kind == "method" and getattr(n, "iterop", None) == "iter"):
+            fail(f"{self.fi.fname}:{n.line}", "the source of this iterator chain is outside the translated subset (`.iter()` of an array field or of a slice of it)")
+        stages.reverse()
+        src = strip_paren(n.e)
+        maps = [st.args[0] for st in stages if st.iterop == "map"]
+
+        def consume(lst):
+            """`lst`: the Lean list of the elements that reach the closures, all adaptor arguments evaluated"""
+            x = self.fresh()
+            fns = maps + ([e.args[0]] if e.iterop == "find_map" else [])
+            saved = (getattr(self, "in_closure", 0), self.ret_ty, self.closed, self.allow_mut)
+            self.in_closure, self.closed, self.allow_mut = saved[0] + 1, self.closed + 1, None
+            self.ret_ty = fns[-1].ret_t if fns and fns[-1].kind == "closure" else None
+
+            def apply(j, arg):
+                if j == len(fns):
+                    return f"{self.ind(depth + 2)}.ok {atom(arg)}"
+                last = j == len(fns) - 1
+                f = fns[j]
+                if f.kind == "variant":
+                    callee = f.fn_callee
+                    fn = callee.lean_name if callee.ns == self.fi.ns else f"{callee.ns}.{callee.lean_name}"
+                    if last:
+                        return f"{self.ind(depth + 2)}{lname(fn)} {atom(arg)}"
+                    v = self.fresh()
+                    return f"{self.ind(depth + 2)}bnd ({lname(fn)} {atom(arg)}) fun {v} =>\n" + apply(j + 1, v)
+                pre = self.bind_tuple(f.pat, arg, depth + 2) if isinstance(f.pat, list) else \
+                    (f"{self.ind(depth + 2)}let {lname(f.pat)} := {arg}\n" if lname(f.pat) != arg else "")
+                if last:
+                    kk = self.RET(depth + 2)  # the tail / `?` of the last closure leave the composed function
+                else:
+                    if self.has_return(f.e):
+                        fail(f"{self.fi.fname}:{f.line}", "`?` / `return` inside a `map` closure that is not the last of the chain")
+
+                    def kk(term, j=j):
+                        return apply(j + 1, term)
+                body = f.e.b if f.e.kind == "blockexpr" else Node("block", f.e.line, stmts=[], tail=f.e)
+                return pre + self.block(body, kk, depth + 2)
+            body = apply(0, x)
+            self.in_closure, self.ret_ty, self.closed, self.allow_mut = saved
+            fun = f"(fun {x} =>\n{body})"
+            if zipn is not None:
+                call = f"findMapZipFromM {self.tyname(strip_paren(zipn.e).l.ty)} {self.site(zipn)} {fun} {atom(zipn.start_term)} {atom(lst)}"
+            elif e.iterop == "find_map":
+                call = f"findMapM {fun} {atom(lst)}"
+            else:
+                call = f"sumM {self.tyname(e.ty)} {self.site(e)} {fun} {atom(lst)}"
+            if getattr(k, "is_ret", False) and not saved[0] and not self.fi.node.mut_self and prune(e.ty) == prune(self.ret_ty):
+                return f"{I}{call}"
+            v = self.fresh()
+            return f"{I}bnd ({call}) fun {v} =>\n" + k(v)
+
+        def run(j, lst):
+            """the adaptors that rearrange the elements, in the order of the chain (their arguments are evaluated when
+            the adaptor is called, i.e. before the consumer pulls anything)"""
+            if j == len(stages):
+                return consume(lst)
+            st = stages[j]
+            if st.iterop == "enumerate":
+                return run(j + 1, f"enumerate {atom(lst)}")
+            if st.iterop == "copied":
+                return run(j + 1, lst)
+            if st.iterop == "skip":
+                return self.cg(st.args[0], lambda a: run(j + 1, f"List.drop {int_atom(a)}.toNat {atom(lst)}"), depth)
+            return run(j + 1, lst)  # map: composed into the element function by `consume`
+        def from_src():
+            if strip_ref(src.ty)[0] == "array":
+                base = self.pure(src)
+                if base is None:
+                    fail(f"{self.fi.fname}:{src.line}", "only an array that is a field is iterated in the translated subset")
+                return run(0, f"{atom(base)}.toList")
+            return self.cg(src, lambda l: run(0, l), depth)  # a slice, a `VecDeque`: already a list
+        if zipn is not None:
+            # the receiver `(start..)` is evaluated before the argument of `zip`
+            def kz(st):
+                zipn.start_term = st
+                return from_src()
+            return self.cg(strip_paren(zipn.e).l, kz, depth)
+        return from_src()
+    # ---------------------------------------------------------------------------------------------
+
     def pure_raw(self, fake, l, r):
         op = fake.op
         if op in ("==", "!="):
@@ -2627,6 +4043,19 @@ class Gen:
     def cg_call(self, e, callee, recv, args, k, depth):
         I = self.ind(depth)
         allargs = ([recv] if recv is not None else []) + list(args)
+        if getattr(e, "hole_args", None) is not None:
+            # [iteration extension] opaque arguments are dropped, the callee's holes are holes of the caller
+            allargs = ([recv] if recv is not None else []) + [a for a in args if strip_ref(a.ty)[0] != "opaque"]
+            exts = [hole_lean_names(self.fi.holes)[n - 1] for n in e.hole_args]
+
+            def kh(terms):
+                fn = callee.lean_name if callee.ns == self.fi.ns else f"{callee.ns}.{callee.lean_name}"
+                call = " ".join([lname(fn)] + [atom(t) for t in terms] + exts)
+                if getattr(k, "is_ret", False) and prune(e.ty) == prune(self.ret_ty) and not self.fi.node.mut_self:
+                    return f"{I}{call}"
+                v = self.fresh()
+                return f"{I}bnd ({call}) fun {v} =>\n" + k(v)
+            return self.cg_args(allargs, kh, depth)
 
         def kk(terms):
             fn = callee.lean_name if callee.ns == self.fi.ns else f"{callee.ns}.{callee.lean_name}"
@@ -2643,6 +4072,11 @@ def atom(term):
     if re.fullmatch(r"[\w«».]+|\(.*\)|\{.*\}|\"[^\"]*\"", term) and balanced_atom(term):
         return term
     return f"({term})"
+
+
+def int_atom(term):
+    """[iteration extension] an integer term in front of `.toNat` / as an `Int` argument: a literal needs its type"""
+    return f"({term} : Int)" if re.fullmatch(r"\d+", term) else atom(term)
 
 
 def balanced_atom(term):
@@ -2679,13 +4113,22 @@ def translate(repo, overrides):
         return toks_of[rel]
 
     enums, enum_src = {}, {}
+    enum_derives = {}
     for rel, name in ENUMS:
         enums[name], line = find_enum(toks(rel), rel, name)
         enum_src[name] = f"{rel}:{line}"
+        enum_derives[name] = derives_of(raw_of[rel], name)
+
+    penums, penum_src = {}, {}
+    for rel, name in PENUMS:
+        penums[name], line = find_penum(toks(rel), rel, name, (), set(enums))
+        penum_src[name] = f"{rel}:{line}"
+        if ("chrono", "Weekday") not in file_uses(toks(rel)) and any(ft == T("ext", "Weekday") for _, tys in penums[name] for ft in tys):
+            fail(rel, f"enum {name}: `Weekday` is read as `chrono::Weekday`, but the file does not import it from there")
 
     structs, struct_src, derefs, derives = {}, {}, set(), {}
     for rel, name in STRUCTS:
-        fields, line = find_struct(toks(rel), rel, name, known=set(structs), known_enums=set(enums))
+        fields, line = find_struct(toks(rel), rel, name, known=set(structs), known_enums=set(enums), known_penums=set(penums))
         structs[name] = fields
         struct_src[name] = f"{rel}:{line}"
         derives[name] = derives_of(raw_of[rel], name)
@@ -2694,6 +4137,7 @@ def translate(repo, overrides):
         if len(fields) == 1 and fields[0][0] == "0" and fields[0][1][0] == "int" and has_deref_to_field0(toks(rel), name, fields[0][1][1]):
             derefs.add(name)
 
+    derives.update(enum_derives)
     fns, order = {}, []
     for target in TARGETS:
         header, tparams, self_t, aliases, assoc = None, {}, None, set(), {}
@@ -2755,6 +4199,29 @@ def translate(repo, overrides):
             fi = FnInfo(key, ns, lean_name, node, None, rel, uses=uses)
             fi.derives = derives
             fi.closure_of = (outer, adaptor)
+            fns[key] = fi
+            order.append(key)
+            continue
+        if target[0] == "arm":
+            _, rel, hdr, fname_, erel, ename, vname, subpats, ns, lean_name = target
+            tk = toks(rel)
+            uses = std_uses(tk)
+            for alias, path in ALIASES.get(rel, {}).items():
+                if has_use_as(tk, path, alias):
+                    aliases.add(alias)
+            o = find_impl_fns(tk, rel, hdr.split()[-1], None, [fname_], hdr.split())[fname_]
+            syn = arm_function(tk, rel, o, lean_name, toks(erel), erel, ename, vname, subpats, aliases)
+            modelled = (ns, lean_name) in CHRONO_FNS
+            p = Parser(syn, rel, set(structs), uses=uses | std_uses(toks(erel)), enums=set(enums), aliases=aliases, modelled=modelled, penums=set(penums))
+            node = p.fn()
+            key = (ns, lean_name)
+            if key in fns:
+                fail(rel, f"{ns}.{lean_name} is defined twice")
+            fi = FnInfo(key, ns, lean_name, node, None, rel, uses=uses | std_uses(toks(erel)))
+            fi.derives = derives
+            fi.modelled = modelled
+            fi.arm_of = (fname_, f"{ename}::{vname}", subpats)
+            fi.local_fns = set(find_local_fns(tk))
             fns[key] = fi
             order.append(key)
             continue
@@ -2825,8 +4292,15 @@ def translate(repo, overrides):
                                 pass  # an associated type outside the subset: an error only if a translated function uses it
                     i += 1
         for n in names:
-            p = Parser(tk, rel, set(structs), tparams=tparams, uses=uses, enums=set(enums), aliases=aliases, assoc=assoc)
+            modelled = (impl_ty, n) in CHRONO_FNS
+            if modelled:
+                for alias, path in ALIASES.get(rel, {}).items():
+                    if has_use_as(tk, path, alias):
+                        aliases.add(alias)
+            p = Parser(tk, rel, set(structs), tparams=tparams, uses=uses, enums=set(enums), aliases=aliases, assoc=assoc,
+                       modelled=modelled, penums=set(penums))
             p.i = where[n]
+            p.extval = rel in EXTVAL_FILES  # [iteration extension]
             node = p.fn()
             if node.name != n:
                 fail(f"{rel}:{node.line}", f"expected fn {n}")
@@ -2835,8 +4309,11 @@ def translate(repo, overrides):
                 fail(f"{rel}:{node.line}", f"{impl_ty}::{n} is defined twice (inherent and trait impl)")
             fi = FnInfo(key, ns, n, node, impl_ty, rel, self_t=self_t, uses=uses)
             fi.derives = derives
+            fi.modelled = modelled
             fns[key] = fi
             order.append(key)
+    for fi in fns.values():
+        fi.penums = penums
 
     for key, (src, how) in CLOSURE_ELEM.items():
         if key in fns:
@@ -2883,10 +4360,16 @@ def translate(repo, overrides):
           "`T: PartialOrd/Ord` a type parameter with decidable `≤` `<`, `&T` is `T`, `a..b` / `a..=b` are `Range.mk` /",
           "`RangeInclusive.mk`, `max`/`min` are `cmpMax`/`cmpMin`.  OH/Props/Arith*.lean ties these definitions to the",
           "hand-written models.",
-          "-/", "import OH.Model.RustInt", "namespace OH.Generated.Arith", "open OH.Model.RustInt", ""]
+          "In the functions of the translator's table CHRONO_FNS chrono's `NaiveDate` / `Weekday` / `TimeDelta` are the",
+          "values of the calendar model (day number, days from Monday, whole days: `Int`s) and the chrono calls are the",
+          "functions `Chrono.*` of OH/Model/RustChrono.lean, which state their meaning over OH/Model/Calendar.lean.",
+          "-/", "import OH.Model.RustInt", "import OH.Model.RustChrono", "namespace OH.Generated.Arith", "open OH.Model.RustInt",
+          "open OH.Model.RustChrono", ""]
+    L.insert(L.index("import OH.Model.RustInt") + 1, "import OH.Model.RustIter")  # [iteration extension]
     used_structs = []
 
     used_enums = []
+    used_penums = []
 
     def use_struct(name):
         if name in used_structs:
@@ -2900,6 +4383,8 @@ def translate(repo, overrides):
                 use_struct(ft[1][1])
             if ft[0] == "enum" and ft[1] not in used_enums:
                 used_enums.append(ft[1])
+            if ft[0] == "penum" and ft[1] not in used_penums:
+                used_penums.append(ft[1])
         used_structs.append(name)
     for key in emitted:
         fi = fns[key]
@@ -2918,6 +4403,20 @@ def translate(repo, overrides):
         L.append(f"def {name}.discr : {name} → Int")
         for v, d in enums[name]:
             L.append(f"  | .{lname(v)} => {d}")
+        L.append("")
+        if any(name in fns[key].ordered_structs for key in emitted):
+            L.append(f"/-- `#[derive(PartialOrd, Ord)]` on the fieldless `{name}`: the order of the discriminants -/")
+            L.append(f"instance : LT {name} := ⟨fun a b => a.discr < b.discr⟩")
+            L.append(f"instance : LE {name} := ⟨fun a b => a.discr ≤ b.discr⟩")
+            L.append(f"instance : DecidableLT {name} := fun a b => inferInstanceAs (Decidable (a.discr < b.discr))")
+            L.append(f"instance : DecidableLE {name} := fun a b => inferInstanceAs (Decidable (a.discr ≤ b.discr))")
+            L.append("")
+    for name in used_penums:
+        L.append(f"/-- `enum {name}` ({penum_src[name]}): unit and tuple variants -/")
+        L.append(f"inductive {name} where")
+        for v, tys in penums[name]:
+            L.append(f"  | {lname(v)}" + "".join(f" (a{k} : {lty(ft)})" for k, ft in enumerate(tys)) + "  -- " + (", ".join(show(ft) for ft in tys) or "unit"))
+        L.append("  deriving DecidableEq, Repr")
         L.append("")
     for name in used_structs:
         L.append(f"/-- `struct {name}` ({struct_src[name]}) -/")
@@ -2962,7 +4461,8 @@ def translate(repo, overrides):
         elif fi.is_const:
             L.append(f"/-- `const {owner}{f.name}: {rshow}` ({fi.fname}:{f.line}) -/")
         elif fi.holes:
-            hs = ", ".join(f"ext{n + 1} = the result of the untranslated call `.{hn}(..)` at line {hl}" for n, (hn, hl, _) in enumerate(fi.holes))
+            hs = ", ".join((f"{hole_lean_names(fi.holes)[n]} = the result of the getter `{hn[1:]}()` (every call)" if hn.startswith("@") else
+                            f"{hole_lean_names(fi.holes)[n]} = the result of the untranslated call `.{hn}(..)` at line {hl}") for n, (hn, hl, _) in enumerate(fi.holes))
             L.append(f"/-- `{owner}{f.name}({sig}) -> {rshow}` ({fi.fname}:{f.line}); {hs} -/")
         else:
             L.append(f"/-- `{owner}{f.name}({sig}) -> {rshow}` ({fi.fname}:{f.line}) -/")
@@ -2971,8 +4471,995 @@ def translate(repo, overrides):
     if cur is not None:
         L.append(f"end {cur}")
         L.append("")
+    L += seq_section(toks)  # third extension: sequences (Vec, iterators, loops, from_fn, library calls as EXTERNs)
     L.append("end OH.Generated.Arith")
-    return "\n".join(L) + "\n"
+    return "\n".join(L).replace("import OH.Model.RustInt\n", "import OH.Model.RustInt\nimport OH.Model.RustSeq\n", 1) + "\n"
+
+
+# ------------------------------------------------------------------------------------------------
+# third extension: sequences (DESIGN §8.9).  `Vec<T>` / a consumed `vec.into_iter()` as a `List`, `while let Some(x) =
+# it.next()` as structural recursion over that list, `std::iter::from_fn(move || ..)` as `fromFn fuel ..` with the
+# captured state passed explicitly, `Option::replace/take`, `if let Some(ref mut x) = opt` as a write-through alias,
+# library calls on vectors (`sort_unstable_by`, `sort_unstable`, `dedup`, `binary_search`) as EXTERNs: the library
+# FUNCTION is a parameter `ext_<name>` of the generated definition, its contract a named hypothesis of the theorems.  Support library:
+# OH/Model/RustSeq.lean.  A separate small front end (`SeqParser` extends the expression grammar of `Parser` by
+# statements with `mut` state, `SeqGen` is a typed CPS generator); the same rule: anything else is an error naming
+# file:line.
+
+F_SV = "opening-hours-syntax/src/sorted_vec.rs"
+# (file, impl header in full or None for a free function, Lean namespace, Rust name, Lean name)
+SEQ_TARGETS = [
+    (F_RANGE, None, "RangeUtils", "ranges_union", "ranges_union"),
+    (F_SV, "impl < T : Ord > UniqueSortedVec < T >", "UniqueSortedVec", "contains", "contains"),
+    (F_SV, "impl < T : Ord > UniqueSortedVec < T >", "UniqueSortedVec", "find_first_following", "find_first_following"),
+    (F_SV, "impl < T : Ord > From < Vec < T >> for UniqueSortedVec < T >", "UniqueSortedVec", "from", "from_vec"),
+]
+# generic newtypes over a vector, `struct NAME<T>(Vec<T>);` (checked literally)
+SEQ_STRUCTS = {"UniqueSortedVec": F_SV}
+# untranslated library calls: method -> what the generated doc comment says about the parameter
+SEQ_EXTERNS = {
+    "sort_unstable_by": "the library function `v ↦ v after v.sort_unstable_by(|a, b| a.{key}.cmp(&b.{key}))` (contract: a permutation sorted by `{key}`)",
+    "sort_unstable": "the library function `v ↦ v after v.sort_unstable()` (contract: a sorted permutation)",
+    "dedup": "the library function `v ↦ v after v.dedup()` (contract: consecutive equal elements removed)",
+    "binary_search": "the library function `(v, x) ↦ v.binary_search(x)` (contract: `slice::binary_search`)",
+}
+UNIT = T("unit")
+
+
+def seq_show(t):
+    if t is None:
+        return "_"
+    k = t[0]
+    if k in ("list", "iter", "intoiter", "iterret"):
+        return {"list": "Vec", "iter": "IntoIter", "intoiter": "impl IntoIterator", "iterret": "impl Iterator"}[k] + f"<{seq_show(t[1])}>"
+    if k == "opt":
+        return f"Option<{seq_show(t[1])}>"
+    if k == "range":
+        return f"Range<{seq_show(t[1])}>"
+    if k == "ref":
+        return seq_show(t[1])
+    if k == "vstruct":
+        return f"{t[1]}<{seq_show(t[2])}>"
+    if k == "res2":
+        return "Result<usize, usize>"
+    if k == "unit":
+        return "()"
+    return show(t)
+
+
+def seq_lty(t, top=True):
+    k = t[0]
+    if k == "ref":
+        return seq_lty(t[1], top)  # a shared reference to a value is the value
+    if k in ("list", "iter", "intoiter", "iterret"):
+        s = f"List {seq_lty(t[1], False)}"
+    elif k == "opt":
+        s = f"Option {seq_lty(t[1], False)}"
+    elif k == "range":
+        s = f"Range {seq_lty(t[1], False)}"
+    elif k == "vstruct":
+        s = f"{t[1]} {seq_lty(t[2], False)}"
+    elif k == "res2":
+        s = "Except Int Int"
+    elif k == "unit":
+        return "Unit"
+    elif k == "bool":
+        return "Bool"
+    elif k == "int":
+        return "Int"
+    elif k == "tparam":
+        return t[1]
+    else:
+        raise AssertionError(t)
+    return s if top else f"({s})"
+
+
+def seq_unref(t):
+    while t is not None and t[0] == "ref":
+        t = t[1]
+    return t
+
+
+def seq_same(a, b):
+    """equality of types up to references and the wildcard `_` (None)"""
+    a, b = seq_unref(a), seq_unref(b)
+    if a is None or b is None:
+        return True
+    if a[0] != b[0] or len(a) != len(b):
+        return False
+    return all(seq_same(x, y) if isinstance(x, tuple) or x is None else x == y for x, y in zip(a[1:], b[1:]))
+
+
+class SeqParser(Parser):
+    """The expression grammar of `Parser`, plus: types `Vec<T>`, `_`, `impl IntoIterator<Item = T>`, `impl Iterator<Item = T>`,
+    `NAME<T>` for the newtypes of SEQ_STRUCTS; closures `|a, b| e` / `move || { .. }`; statements
+        let [mut] x [: T] = e;   let (Ok(i) | Err(i)) = e;   place = e;   e;   return e;
+        if c { .. } [else { .. }]   if let Some([ref [mut]] x) = e { .. } else { .. }   while let Some(x) = it.next() { .. }
+    (blocks may be without a value)."""
+
+    def type_(self):
+        tk = self.peek()
+        if tk.text == "_":
+            self.i += 1
+            return None
+        if tk.text == "&":
+            self.i += 1
+            if self.peek().kind == "life":
+                self.i += 1
+            if self.at("mut"):
+                fail(self.where(), "`&mut` types are outside the translated subset")
+            return T("ref", self.type_())
+        if tk.text == "Vec":
+            self.i += 1
+            self.eat("<")
+            inner = self.type_()
+            self.close_angle()
+            return T("list", inner)
+        if tk.text == "Option":
+            self.i += 1
+            self.eat("<")
+            inner = self.type_()
+            self.close_angle()
+            return T("opt", inner)
+        if tk.text in ("Range",):
+            self.i += 1
+            self.need_use("Range", tk)
+            self.eat("<")
+            inner = self.type_()
+            self.close_angle()
+            return T("range", inner)
+        if tk.text == "impl":
+            self.i += 1
+            tr = self.ident()
+            if tr not in ("IntoIterator", "Iterator"):
+                fail(self.where(tk), f"`impl {tr}` is outside the translated subset")
+            self.eat("<")
+            self.eat("Item")
+            self.eat("=")
+            inner = self.type_()
+            self.close_angle()
+            return T("intoiter" if tr == "IntoIterator" else "iterret", inner)
+        if tk.text in SEQ_STRUCTS:
+            self.i += 1
+            self.eat("<")
+            inner = self.type_()
+            self.close_angle()
+            return T("vstruct", tk.text, inner)
+        if tk.text == "Self":
+            self.i += 1
+            if getattr(self, "self_t", None) is None:
+                fail(self.where(tk), "`Self` outside an impl")
+            return self.self_t
+        if tk.text == "bool":
+            self.i += 1
+            return BOOL
+        if tk.text == "usize":
+            self.i += 1
+            return tint("usize")
+        if tk.kind == "id" and tk.text in self.tparams and self.tparams[tk.text] is not None:
+            self.i += 1
+            return T("tparam", tk.text)
+        fail(self.where(tk), f"type `{tk.text}` is outside the translated subset (sequence functions)")
+
+    def seq_fn(self):
+        line = self.eat("fn").line
+        name = self.ident()
+        if self.at("<"):
+            self.generics()
+        self.eat("(")
+        params, has_self = [], False
+        while not self.at(")"):
+            if self.at("&") and self.peek(1).text == "self":
+                self.i += 2
+                has_self = True
+            elif self.at("self"):
+                self.i += 1
+                has_self = True
+            elif self.at("&") or (self.at("mut") and self.peek(1).text == "self"):
+                fail(self.where(), "this receiver is outside the translated subset")
+            else:
+                mut = False
+                if self.at("mut"):
+                    self.i += 1
+                    mut = True  # an owned parameter the body rebinds
+                pn = self.ident()
+                self.eat(":")
+                params.append((pn, self.type_(), mut))
+            if not self.at(")"):
+                self.eat(",")
+        self.eat(")")
+        self.eat("->")
+        ret = self.type_()
+        if self.at("where"):
+            fail(self.where(), "`where` clauses are outside the translated subset (sequence functions)")
+        body = self.block()
+        return Node("fn", line, name=name, params=params, has_self=has_self, ret=ret, body=body, tparams=dict(self.tparams))
+
+    def block(self):
+        line = self.eat("{").line
+        stmts, tail = [], None
+        while not self.at("}"):
+            if tail is not None:
+                fail(self.where(), "statement after the tail expression")
+            tk = self.peek()
+            if self.at("let"):
+                stmts.append(self.seq_let())
+            elif self.at("while"):
+                stmts.append(self.seq_while())
+            elif self.at("return"):
+                self.i += 1
+                e = self.expr()
+                if not self.at("}"):
+                    self.eat(";")
+                stmts.append(Node("ret", tk.line, e=e))
+                if not self.at("}"):
+                    fail(self.where(), "statement after `return`")
+            elif self.at("if"):
+                e = self.primary(False)
+                if self.at("}"):
+                    tail = e
+                else:
+                    if self.at(";"):
+                        self.i += 1
+                    elif self.at(".") or self.at("?"):
+                        fail(self.where(), "a method call on an `if` expression is outside the translated subset")
+                    stmts.append(Node("exprstmt", e.line, e=e))
+            else:
+                e = self.expr()
+                t2 = self.peek()
+                if t2.kind == "op" and t2.text == "=":
+                    self.i += 1
+                    rhs = self.expr()
+                    self.eat(";")
+                    stmts.append(Node("assign", t2.line, place=e, e=rhs))
+                elif t2.kind == "op" and t2.text in self.ASSIGN:
+                    fail(self.where(), f"`{t2.text}` is outside the translated subset (sequence functions)")
+                elif self.at(";"):
+                    self.i += 1
+                    stmts.append(Node("exprstmt", e.line, e=e))
+                else:
+                    tail = e
+        self.eat("}")
+        return Node("block", line, stmts=stmts, tail=tail)
+
+    def seq_let(self):
+        line = self.eat("let").line
+        if self.at("("):
+            # exactly `let (Ok(i) | Err(i)) = e;`
+            self.i += 1
+            self.eat("Ok")
+            self.eat("(")
+            a = self.ident()
+            self.eat(")")
+            self.eat("|")
+            self.eat("Err")
+            self.eat("(")
+            b = self.ident()
+            self.eat(")")
+            self.eat(")")
+            if a != b:
+                fail(f"{self.f}:{line}", "the two alternatives of the or-pattern bind different names")
+            self.eat("=")
+            e = self.expr()
+            self.eat(";")
+            return Node("leteither", line, name=a, e=e)
+        mut = False
+        if self.at("mut"):
+            self.i += 1
+            mut = True
+        tk = self.peek()
+        if tk.kind != "id" or tk.text in ("Some", "Ok", "Err", "ref") or self.peek(1).text in ("(", "{", "::", "@", "["):
+            fail(self.where(), "this `let` pattern is outside the translated subset")
+        name = self.ident()
+        ann, has_ann = None, False
+        if self.at(":"):
+            self.i += 1
+            ann, has_ann = self.type_(), True
+        self.eat("=")
+        e = self.expr()
+        if self.at("else"):
+            fail(self.where(), "`let .. else` is outside the translated subset (sequence functions)")
+        self.eat(";")
+        return Node("let", line, name=name, ann=ann, has_ann=has_ann, e=e, mut=mut)
+
+    def some_pattern(self):
+        """`Some([ref [mut]] NAME)` -> (name, by_ref, mut)"""
+        self.eat("Some")
+        self.eat("(")
+        by_ref = mut = False
+        if self.at("ref"):
+            self.i += 1
+            by_ref = True
+            if self.at("mut"):
+                self.i += 1
+                mut = True
+        elif self.at("mut"):
+            fail(self.where(), "a `mut` binding in a pattern is outside the translated subset")
+        name = self.ident()
+        self.eat(")")
+        return name, by_ref, mut
+
+    def seq_while(self):
+        """exactly `while let Some(NAME) = IT.next() { .. }`"""
+        line = self.eat("while").line
+        if not self.at("let"):
+            fail(self.where(), "a `while` loop that is not `while let Some(x) = it.next()` is outside the translated subset")
+        self.i += 1
+        name, by_ref, _ = self.some_pattern()
+        if by_ref:
+            fail(self.where(), "`ref` in a `while let` pattern is outside the translated subset")
+        self.eat("=")
+        it = self.peek()
+        itn = self.ident()
+        self.eat(".")
+        m = self.ident()
+        if m != "next":
+            fail(self.where(it), f"`while let Some(..) = {itn}.{m}()`: only `.next()` of a consumed vector iterator is translated (the loop is a structural recursion over what is left of it)")
+        self.eat("(")
+        self.eat(")")
+        body = self.block()
+        return Node("whilelet", line, name=name, it=itn, body=body)
+
+    def primary(self, nostruct):
+        tk = self.peek()
+        if tk.kind == "id" and tk.text == "move":
+            self.i += 1
+            if not (self.at("||") or self.at("|")):
+                fail(self.where(), "`move` not followed by a closure")
+            tk2 = self.peek()
+            return self.closure(tk2, True)
+        if tk.kind == "op" and tk.text in ("|", "||"):
+            return self.closure(tk, False)
+        if tk.kind == "id" and tk.text == "if":
+            self.i += 1
+            if self.at("let"):
+                self.i += 1
+                name, by_ref, mut = self.some_pattern()
+                self.eat("=")
+                scrut = self.expr(nostruct=True)
+                a = self.block()
+                b = None
+                if self.at("else"):
+                    self.i += 1
+                    if self.at("if"):
+                        fail(self.where(), "`else if` after `if let` is outside the translated subset")
+                    b = self.block()
+                return Node("iflet", tk.line, name=name, by_ref=by_ref, mut=mut, scrut=scrut, a=a, b=b)
+            c = self.expr(nostruct=True)
+            a = self.block()
+            b = None
+            if self.at("else"):
+                self.i += 1
+                if self.at("if"):
+                    bl = self.peek().line
+                    b = Node("block", bl, stmts=[], tail=self.primary(nostruct))
+                else:
+                    b = self.block()
+            return Node("if", tk.line, c=c, a=a, b=b)
+        if tk.kind == "id" and tk.text == "match":
+            fail(self.where(), "`match` is outside the translated subset (sequence functions)")
+        return Parser.primary(self, nostruct)
+
+    def closure(self, tk, move):
+        params = []
+        if self.at("||"):
+            self.i += 1
+        else:
+            self.eat("|")
+            while not self.at("|"):
+                ptk = self.peek()
+                if ptk.kind != "id" or ptk.text in ("mut", "ref"):
+                    fail(self.where(), "this closure parameter is outside the translated subset")
+                params.append(self.ident())
+                if self.at(":"):
+                    fail(self.where(), "annotated closure parameters are outside the translated subset")
+                if not self.at("|"):
+                    self.eat(",")
+            self.eat("|")
+        if self.at("{"):
+            body = self.block()
+        else:
+            bl = self.peek().line
+            body = Node("block", bl, stmts=[], tail=self.expr())
+        return Node("closure", tk.line, params=params, body=body, move=move)
+
+
+def seq_idents(node, out):
+    """every variable name mentioned below `node`"""
+    if isinstance(node, Node):
+        if node.kind == "var":
+            out.add(node.name)
+        if node.kind == "whilelet":
+            out.add(node.it)
+        for v in node.__dict__.values():
+            seq_idents(v, out)
+    elif isinstance(node, (list, tuple)):
+        for v in node:
+            seq_idents(v, out)
+
+
+class SeqVar:
+    def __init__(self, ty, mut=False, alias=None):
+        self.ty, self.mut, self.alias = ty, mut, alias  # alias: the `Option` variable this is the `Some` payload of
+
+
+class SeqFrame:
+    """where a `return` goes: kind "fn" (`.ok v`), "closure" (`.ok (v, state)`), "loop" (`.ok (.ret v state)`)"""
+
+    def __init__(self, kind, state=(), ret_ty=None, parent=None):
+        self.kind, self.state, self.ret_ty, self.parent = kind, list(state), ret_ty, parent
+
+
+def seq_tuple(names):
+    names = [lname(n) for n in names]
+    if not names:
+        return "()"
+    return names[0] if len(names) == 1 else "(" + ", ".join(names) + ")"
+
+
+def seq_tuple_ty(tys):
+    if not tys:
+        return "Unit"
+    return " × ".join(seq_lty(t, False) if len(tys) > 1 else seq_lty(t) for t in tys)
+
+
+class SeqGen:
+    def __init__(self, fname, ns, lean_name, node, self_t, imports):
+        self.f, self.ns, self.lean_name, self.node, self.self_t, self.imports = fname, ns, lean_name, node, self_t, imports
+        self.n = 0
+        self.externs = []  # (type, description)
+        self.aux = []  # auxiliary definitions (loops, closures), in order
+        self.nloop = self.nclosure = 0
+        self.ord_ops = False
+        self.fuel = False
+
+    def w(self, node):
+        return f"{self.f}:{node.line}"
+
+    def fresh(self):
+        self.n += 1
+        return f"tmp{self.n}"
+
+    def binders(self):
+        out = []
+        for tp, b in self.node.tparams.items():
+            if b is None:
+                fail(self.w(self.node), f"generic parameter `{tp}` with a bound other than PartialOrd / Ord")
+            if tp in LEAN_KEYWORDS or not re.fullmatch(r"[A-Z][A-Za-z0-9]*", tp):
+                fail(self.w(self.node), f"generic parameter name {tp}")
+            out.append(f"{{{tp} : Type}}" + (f" [LE {tp}] [LT {tp}] [DecidableLE {tp}] [DecidableLT {tp}]" if self.ord_ops else ""))
+        return " ".join(out)
+
+    # -- the top-level function
+    def gen(self):
+        f = self.node
+        env, params = {}, []
+        if f.has_self:
+            if self.self_t is None:
+                fail(self.w(f), "`self` outside an impl")
+            env["self"] = SeqVar(self.self_t)
+            params.append(("self", self.self_t))
+        for pn, pt, mut in f.params:
+            if re.fullmatch(r"tmp\d+|ext_\w+|fuel", pn):
+                fail(self.w(f), f"parameter name {pn} clashes with the translator's names")
+            if pt is None:
+                fail(self.w(f), "parameter of type `_`")
+            env[pn] = SeqVar(pt, mut)
+            params.append((pn, pt))
+        rt = f.ret
+        self.top_ret = rt
+        frame = SeqFrame("fn", ret_ty=rt)
+        body = self.block(f.body, env, frame, 0, lambda term, ty, env2: self.emit_return(frame, term, ty, env2, f.body))
+        ps = [f"({lname(n)} : {seq_lty(seq_unref(t))})" for n, t in params]
+        self.externs.sort()  # by name: the order of the parameters does not depend on the order of the calls
+        ps += [f"({n} : {t})" for n, t, _ in self.externs]
+        if self.fuel:
+            ps.append("(fuel : Nat)")
+        lrt = seq_lty(seq_unref(rt), False)
+        sig = ", ".join((["self"] if f.has_self else []) + [f"{pn}: {seq_show(pt)}" for pn, pt, _ in f.params])
+        doc = f"/-- `{f.name}({sig}) -> {seq_show(rt)}` ({self.f}:{f.line})"
+        for n, _, d in self.externs:
+            doc += f"; {n} = {d}"
+        if self.fuel:
+            doc += "; the `from_fn` iterator is collected: the closure is called until it returns `None`, at most `fuel` times"
+        doc += " -/"
+        b = self.binders()
+        head = f"def {lname(self.lean_name)} {b + ' ' if b else ''}{' '.join(ps)} : R {lrt} :="
+        out = []
+        for a in self.aux:
+            out += a(b) + [""]
+        out += [doc, head] + ["  " + x for x in body]
+        return out
+
+    def emit_return(self, frame, term, ty, env, node):
+        """the lines of `return term` in `frame`"""
+        want = frame.ret_ty
+        if frame.kind == "fn":
+            if want[0] == "iterret":
+                fail(self.w(node), "a function returning `impl Iterator` must end in `std::iter::from_fn(move || ..)`")
+            if not seq_same(ty, want):
+                fail(self.w(node), f"type mismatch: the function returns {seq_show(want)}, found {seq_show(ty)}")
+            return [f".ok {atom(term)}"]
+        if not seq_same(ty, want):
+            fail(self.w(node), f"type mismatch: the closure returns {seq_show(want)}, found {seq_show(ty)}")
+        if frame.kind == "closure":
+            return [f".ok ({term}, {seq_tuple(frame.state)})"]
+        return [f".ok (.ret {atom(term)} {seq_tuple(frame.state)})"]
+
+    # -- blocks and statements
+    def block(self, b, env, frame, depth, k):
+        """lines of the statements of `b` followed by `k(tail term, type, env restricted to the outer names)`"""
+        outer = set(env)
+
+        def done(term, ty, env2):
+            return k(term, ty, {n: v for n, v in env2.items() if n in outer})
+
+        def go(i, env):
+            if i == len(b.stmts):
+                if b.tail is None:
+                    return done("()", UNIT, env)
+                return self.cg(b.tail, env, frame, depth, done)
+            s = b.stmts[i]
+            rest = lambda env2: go(i + 1, env2)
+            if s.kind == "let":
+                if depth > 0 and s.name in env:
+                    fail(self.w(s), f"`let {s.name}` shadows a variable of an enclosing block: outside the translated subset")
+                if re.fullmatch(r"tmp\d+|ext_\w+|fuel", s.name):
+                    fail(self.w(s), f"variable name {s.name} clashes with the translator's names")
+
+                def bound(term, ty, env2):
+                    if ty[0] == "unit":
+                        fail(self.w(s), "`let` of a value of type `()`")
+                    if s.has_ann and not seq_same(s.ann, ty):
+                        fail(self.w(s), f"type mismatch: annotation {seq_show(s.ann)}, value {seq_show(ty)}")
+                    if ty[0] == "iter0":
+                        fail(self.w(s), "`collect()` needs a `Vec<..>` annotation")
+                    env3 = dict(env2)
+                    env3[s.name] = SeqVar(ty, s.mut)
+                    return [f"let {lname(s.name)} := {term}"] + rest(env3)
+                return self.cg(s.e, env, frame, depth, bound)
+            if s.kind == "leteither":
+                if depth > 0 and s.name in env:
+                    fail(self.w(s), f"`let {s.name}` shadows a variable of an enclosing block: outside the translated subset")
+
+                def bound(term, ty, env2):
+                    if seq_unref(ty)[0] != "res2":
+                        fail(self.w(s), f"`let (Ok(i) | Err(i)) = ..` on {seq_show(ty)}")
+                    env3 = dict(env2)
+                    env3[s.name] = SeqVar(tint("usize"))
+                    return [f"let {lname(s.name)} := resEither {atom(term)}"] + rest(env3)
+                return self.cg(s.e, env, frame, depth, bound)
+            if s.kind == "assign":
+                return self.assign(s, env, frame, depth, rest)
+            if s.kind == "ret":
+                return self.cg(s.e, env, frame, depth, lambda term, ty, env2: self.emit_return(frame, term, ty, env2, s))
+            if s.kind == "whilelet":
+                return self.whilelet(s, env, frame, depth, rest)
+            if s.kind == "exprstmt":
+                def dropped(term, ty, env2):
+                    if ty[0] != "unit":
+                        fail(self.w(s), f"a value of type {seq_show(ty)} is dropped by `;`: outside the translated subset")
+                    return rest(env2)
+                return self.cg(s.e, env, frame, depth, dropped)
+            fail(self.w(s), "statement outside the translated subset")
+        return go(0, env)
+
+    def sync_alias(self, name, env):
+        v = env[name]
+        return [f"let {lname(v.alias)} := some {lname(name)}"] if v.alias else []
+
+    def assign(self, s, env, frame, depth, rest):
+        p = s.place
+        while p.kind == "paren":
+            p = p.e
+        field = None
+        if p.kind == "field" and p.e.kind == "var":
+            field, p = p.name, p.e
+        if p.kind != "var" or p.name not in env:
+            fail(self.w(s), "assignment to something else than a `mut` local or one of its fields")
+        v = env[p.name]
+        if not v.mut:
+            fail(self.w(s), f"assignment to `{p.name}`, which is not `mut`")
+        vt = seq_unref(v.ty)
+        if field is None:
+            want = vt
+        elif vt[0] == "range" and field in ("start", "end"):
+            want = vt[1]
+        else:
+            fail(self.w(s), f"field `{field}` of {seq_show(vt)}")
+
+        def got(term, ty, env2):
+            if not seq_same(ty, want):
+                fail(self.w(s), f"type mismatch: {seq_show(want)} vs {seq_show(ty)}")
+            if field is None:
+                lines = [f"let {lname(p.name)} := {term}"]
+            else:
+                lines = [f"let {lname(p.name)} := {{ {lname(p.name)} with {lname(field)} := {term} }}"]
+            return lines + self.sync_alias(p.name, env2) + rest(env2)
+        return self.cg(s.e, env, frame, depth, got)
+
+    def whilelet(self, s, env, frame, depth, rest):
+        if s.it not in env or seq_unref(env[s.it].ty)[0] != "iter" or not env[s.it].mut:
+            fail(self.w(s), f"`while let Some(..) = {s.it}.next()`: `{s.it}` is not a `mut` consumed vector iterator (`vec.into_iter()`)")
+        if env[s.it].alias:
+            fail(self.w(s), "iterator alias")
+        used = set()
+        seq_idents(s.body, used)
+        if s.it in used:
+            fail(self.w(s), f"the body of the loop mentions the iterator `{s.it}`: outside the translated subset (the loop is a structural recursion over what is left of it)")
+        if s.name in env:
+            fail(self.w(s), f"the loop variable `{s.name}` shadows another variable")
+        elem = seq_unref(env[s.it].ty)[1]
+        self.nloop += 1
+        fname = f"{self.lean_name}.loop{self.nloop}"
+        fixed = [n for n in env if n != s.it and not env[n].mut and n in used]
+        state = [n for n in env if n != s.it and env[n].mut]
+        for n in fixed + state:
+            if env[n].ty[0] == "iter":
+                fail(self.w(s), "a second iterator alive across a loop is outside the translated subset")
+        lf = SeqFrame("loop", state + [s.it], frame.ret_ty, frame)
+        call = " ".join([fname] + [lname(n) for n in fixed + state])
+        env_b = {n: env[n] for n in fixed + state}
+        env_b[s.name] = SeqVar(elem)
+        body = self.block(s.body, env_b, lf, depth + 1,
+                          lambda term, ty, env2: ([] if ty[0] == "unit" else fail(self.w(s), "the loop body has a value")) or [f"{call} {lname(s.it)}"])
+        rty = seq_lty(seq_unref(frame.ret_ty), False)
+        sty = seq_tuple_ty([seq_unref(env[n].ty) for n in state] + [env[s.it].ty])
+        ps = " ".join(f"({lname(n)} : {seq_lty(seq_unref(env[n].ty))})" for n in fixed + state)
+        where = self.w(s)
+        itn, item = lname(s.it), lname(s.name)
+        nil_state = seq_tuple(state + ["[]"]) if state else "[]"
+
+        def emit(b):
+            return [f"/-- the loop `while let Some({s.name}) = {s.it}.next()` of `{self.node.name}` ({where}): structural recursion over what is left of "
+                    f"`{s.it}`; `.ret v s` = `return v` inside the body, `.next s` = the iterator ran out; `s` = ({', '.join(state + [s.it])}) -/",
+                    f"def {fname} {b + ' ' if b else ''}{ps + ' ' if ps else ''}: List {seq_lty(elem, False)} → R (Flow {rty} ({sty}))",
+                    f"  | [] => .ok (.next {nil_state})",
+                    f"  | {item} :: {itn} =>"] + ["    " + x for x in body]
+        self.aux.append(emit)
+        t = self.fresh()
+        pat = seq_tuple(state + [s.it])
+        lines = [f"bnd ({call} {itn}) fun {t} =>", f"match {t} with"]
+        # how a `return` inside the loop leaves the enclosing frame
+        v = self.fresh()
+        lines.append(f"| .ret {v} {pat} => (")
+        lines += ["  " + x for x in self.emit_return(frame, v, frame.ret_ty, env, s)] + ["  )"]
+        lines.append(f"| .next {pat} =>")
+        return lines + rest(env)
+
+    # -- expressions: `k(term, type, env)` continues with the value
+    def cg(self, e, env, frame, depth, k):
+        kind = e.kind
+        w = self.w(e)
+        if kind == "paren":
+            return self.cg(e.e, env, frame, depth, lambda t, ty, en: k(atom(t), ty, en))
+        if kind in ("ref", "deref"):
+            return self.cg(e.e, env, frame, depth, k)  # a shared reference to a value is the value
+        if kind == "var":
+            if e.name not in env:
+                fail(w, f"unknown variable `{e.name}`")
+            return k(lname(e.name), env[e.name].ty, env)
+        if kind == "self":
+            if "self" not in env:
+                fail(w, "`self` in a function without receiver")
+            return k("self", env["self"].ty, env)
+        if kind == "bool":
+            return k("true" if e.value else "false", BOOL, env)
+        if kind == "none":
+            if getattr(e, "result", False):
+                fail(w, "`Err(..)` is outside the translated subset (sequence functions)")
+            return k("none", T("opt", None), env)
+        if kind == "some":
+            if getattr(e, "result", False):
+                fail(w, "`Ok(..)` is outside the translated subset (sequence functions)")
+            return self.cg(e.e, env, frame, depth, lambda t, ty, en: k(f"some {atom(t)}", T("opt", seq_unref(ty)), en))
+        if kind == "field":
+            def fld(t, ty, en):
+                ty = seq_unref(ty)
+                if ty[0] == "range" and e.name in ("start", "end"):
+                    return k(f"{atom(t)}.{lname(e.name)}", ty[1], en)
+                if ty[0] == "vstruct" and e.name == "0":
+                    return k(f"{atom(t)}.v0", T("list", ty[2]), en)
+                fail(w, f"field `{e.name}` of {seq_show(ty)} is outside the translated subset")
+            return self.cg(e.e, env, frame, depth, fld)
+        if kind == "structlit":
+            if len(e.fields) != 1 or e.fields[0][0] != "0":
+                fail(w, "this constructor is outside the translated subset")
+            st = self.self_t if e.name == "Self" else None
+            if st is None or st[0] != "vstruct":
+                fail(w, f"constructor `{e.name}(..)` is outside the translated subset")
+
+            def mk(t, ty, en):
+                if not seq_same(ty, T("list", st[2])):
+                    fail(w, f"type mismatch: {seq_show(T('list', st[2]))} vs {seq_show(ty)}")
+                return k(f"{st[1]}.mk {atom(t)}", st, en)
+            return self.cg(e.fields[0][1], env, frame, depth, mk)
+        if kind == "not":
+            return self.cg(e.e, env, frame, depth, lambda t, ty, en: k(f"!{atom(t)}", BOOL, en) if seq_unref(ty) == BOOL else fail(w, "`!` on a non-bool"))
+        if kind == "bin":
+            op = e.op
+            if op not in ("<", "<=", ">", ">=", "&&", "||"):
+                fail(w, f"operator `{op}` is outside the translated subset (sequence functions)")
+            if op in ("&&", "||"):
+                # the right operand must be free of effects (it is evaluated lazily in Rust)
+                def lhs(a, ta, en):
+                    box = []
+                    r = self.cg(e.r, en, frame, depth, lambda b, tb, en2: box.append((b, tb)) or [])
+                    if r or len(box) != 1:
+                        fail(w, f"an operand of `{op}` with effects is outside the translated subset")
+                    b, tb = box[0]
+                    if seq_unref(ta) != BOOL or seq_unref(tb) != BOOL:
+                        fail(w, f"`{op}` on non-bool operands")
+                    return k(f"({a} {op} {b})", BOOL, en)
+                return self.cg(e.l, env, frame, depth, lhs)
+
+            def lhs(a, ta, en):
+                def rhs(b, tb, en2):
+                    ua, ub = seq_unref(ta), seq_unref(tb)
+                    if not seq_same(ua, ub) or ua is None or ua[0] not in ("tparam", "int"):
+                        fail(w, f"`{op}` on {seq_show(ua)} and {seq_show(ub)} is outside the translated subset")
+                    if ua[0] == "tparam":
+                        if not (self.node.tparams.get(ua[1]) or set()) & ORD_BOUNDS:
+                            fail(w, f"`{op}` on `{ua[1]}`, which is not bounded by PartialOrd / Ord")
+                        self.ord_ops = True
+                    return k(f"decide ({atom(a)} {op.replace('<=', '≤').replace('>=', '≥')} {atom(b)})", BOOL, en2)
+                return self.cg(e.r, en, frame, depth, rhs)
+            return self.cg(e.l, env, frame, depth, lhs)
+        if kind == "if":
+            def cond(c, tc, en):
+                if seq_unref(tc) != BOOL:
+                    fail(w, "the condition of `if` is not a bool")
+                a = self.block(e.a, en, frame, depth + 1, k)
+                if e.b is None:
+                    b = k("()", UNIT, en)
+                else:
+                    b = self.block(e.b, en, frame, depth + 1, k)
+                return [f"if {c} then ("] + ["  " + x for x in a] + ["  )", "else ("] + ["  " + x for x in b] + ["  )"]
+            return self.cg(e.c, env, frame, depth, cond)
+        if kind == "iflet":
+            if e.b is None:
+                fail(w, "`if let` without `else` is outside the translated subset")
+            sc = e.scrut
+            while sc.kind == "paren":
+                sc = sc.e
+            alias = None
+            if e.by_ref:
+                if sc.kind != "var" or sc.name not in env:
+                    fail(w, "`if let Some(ref ..) = e`: `e` has to be a local variable")
+                if e.mut:
+                    if not env[sc.name].mut:
+                        fail(w, f"`ref mut` into `{sc.name}`, which is not `mut`")
+                    alias = sc.name
+            elif sc.kind == "var" and sc.name in env and seq_unref(env[sc.name].ty)[0] == "opt" and seq_unref(env[sc.name].ty)[1][0] != "int":
+                fail(w, "`if let Some(x) = opt` moves out of `opt`: outside the translated subset (write `Some(ref x)` / `Some(ref mut x)`)")
+            if e.name in env:
+                fail(w, f"`{e.name}` shadows another variable")
+
+            def scrut(t, ty, en):
+                ty = seq_unref(ty)
+                if ty[0] != "opt":
+                    fail(w, f"`if let Some(..)` on {seq_show(ty)}")
+                en_a = dict(en)
+                en_a[e.name] = SeqVar(ty[1], e.mut, alias)
+                a = self.block(e.a, en_a, frame, depth + 1, k)
+                b = self.block(e.b, en, frame, depth + 1, k)
+                return [f"match {t} with", f"| some {lname(e.name)} => ("] + ["  " + x for x in a] + ["  )", "| none => ("] + ["  " + x for x in b] + ["  )"]
+            return self.cg(sc, env, frame, depth, scrut)
+        if kind == "blockexpr":
+            return self.block(e.b, env, frame, depth + 1, k)
+        if kind == "return":
+            return self.cg(e.e, env, frame, depth, lambda t, ty, en: self.emit_return(frame, t, ty, en, e))
+        if kind == "call":
+            if e.path == ["std", "iter", "from_fn"]:
+                return self.from_fn(e, env, frame, depth, k)
+            fail(w, f"call of `{'::'.join(e.path)}`, which is not translated (sequence functions)")
+        if kind == "method":
+            return self.method(e, env, frame, depth, k)
+        fail(w, f"this expression ({kind}) is outside the translated subset (sequence functions)")
+
+    def extern(self, e, pname, arg_terms, arg_tys, ty, desc, frame):
+        """an untranslated library call: the library FUNCTION is a parameter `pname` of the generated definition (one per
+        library function, named after it, applied to the arguments of each call), its contract a hypothesis of the theorems"""
+        if frame.kind != "fn":
+            fail(self.w(e), f"the untranslated library call `.{e.name}(..)` inside a closure or loop is outside the translated subset")
+        lt = " → ".join([seq_lty(seq_unref(t), False) for t in arg_tys] + [seq_lty(ty, False)])
+        for n, t, _ in self.externs:
+            if n == pname and t != lt:
+                fail(self.w(e), f"`.{e.name}(..)` is called at two different types")
+        if pname not in [n for n, _, _ in self.externs]:
+            self.externs.append((pname, lt, desc))
+        return "(" + " ".join([pname] + [atom(a) for a in arg_terms]) + ")"
+
+    def method(self, e, env, frame, depth, k):
+        w, name = self.w(e), e.name
+        recv = e.e
+        while recv.kind in ("paren", "ref"):
+            recv = recv.e
+        rv = env.get(recv.name) if recv.kind == "var" else None
+        rty = seq_unref(rv.ty) if rv else None
+
+        def nargs(n):
+            if len(e.args) != n:
+                fail(w, f"`.{name}()` takes {n} argument(s)")
+        # methods with an effect on a `mut` local
+        if rv is not None and rty[0] == "iter" and name == "next":
+            nargs(0)
+            if not rv.mut:
+                fail(w, f"`{recv.name}.next()` on a variable that is not `mut`")
+            t = self.fresh()
+            return [f"let {t} := iterNext {lname(recv.name)}", f"let {lname(recv.name)} := {t}.2"] + k(f"{t}.1", T("opt", rty[1]), env)
+        if rv is not None and rty[0] == "opt" and name in ("replace", "take"):
+            nargs(1 if name == "replace" else 0)
+            if not rv.mut:
+                fail(w, f"`{recv.name}.{name}()` on a variable that is not `mut`")
+            if rv.alias:
+                fail(w, "nested alias")
+            t = self.fresh()
+            if name == "take":
+                return [f"let {t} := {lname(recv.name)}", f"let {lname(recv.name)} : {seq_lty(rty)} := none"] + k(t, rty, env)
+
+            def arg(a, ta, en):
+                if not seq_same(ta, rty[1]):
+                    fail(w, f"type mismatch: {seq_show(rty[1])} vs {seq_show(ta)}")
+                return [f"let {t} := {lname(recv.name)}", f"let {lname(recv.name)} := some {atom(a)}"] + k(t, rty, en)
+            return self.cg(e.args[0], env, frame, depth, arg)
+        if rv is not None and rty[0] == "list" and name in ("sort_unstable_by", "sort_unstable", "dedup"):
+            if not rv.mut:
+                fail(w, f"`{recv.name}.{name}()` on a variable that is not `mut`")
+            if rty[1] is None:
+                fail(w, "element type not known")
+            key = ""
+            if name == "sort_unstable_by":
+                nargs(1)
+                key = self.sort_key(e.args[0], rty[1])
+            else:
+                nargs(0)
+            x = self.extern(e, "ext_" + name + ("_" + key if key else ""), [lname(recv.name)], [rty], rty, SEQ_EXTERNS[name].format(key=key), frame)
+            return [f"let {lname(recv.name)} := {x}"] + k("()", UNIT, env)
+        if name in ("sort_unstable_by", "sort_unstable", "dedup", "replace", "take", "next"):
+            fail(w, f"`.{name}()` on something else than a suitable `mut` local variable is outside the translated subset")
+
+        def on(t, ty, en):
+            ty = seq_unref(ty)
+            k0 = ty[0] if ty else None
+            if name == "into_iter" and k0 in ("intoiter", "list"):
+                nargs(0)
+                return k(t, T("iter", ty[1]), en)
+            if name == "collect" and k0 == "iter":
+                nargs(0)
+                return k(t, T("list", ty[1]), en)
+            if name == "unwrap" and k0 == "opt":
+                nargs(0)
+                v = self.fresh()
+                return [f"match {t} with", "| none => .error (.panic \"called `Option::unwrap()` on a `None` value\")", f"| some {v} =>"] + k(v, ty[1], en)
+            if name == "is_ok" and k0 == "res2":
+                nargs(0)
+                return k(f"resIsOk {atom(t)}", BOOL, en)
+            if name == "get" and k0 == "list":
+                nargs(1)
+                return self.cg(e.args[0], en, frame, depth, lambda a, ta, en2: k(f"seqGet {atom(t)} {atom(a)}", T("opt", ty[1]), en2)
+                               if seq_unref(ta) == tint("usize") else fail(w, f"`.get(..)` with an index of type {seq_show(ta)}"))
+            if name == "binary_search" and k0 == "list":
+                nargs(1)
+
+                def arg(a, ta, en2):
+                    if not seq_same(ta, ty[1]) or a not in [lname(n) for n in en2]:
+                        fail(w, "`.binary_search(x)`: `x` has to be a variable of the element type")
+                    return k(self.extern(e, "ext_" + name, [t, a], [ty, ty[1]], T("res2"), SEQ_EXTERNS[name], frame), T("res2"), en2)
+                return self.cg(e.args[0], en, frame, depth, arg)
+            fail(w, f"method `.{name}()` on {seq_show(ty)} is outside the translated subset (sequence functions)")
+        return self.cg(e.e, env, frame, depth, on)
+
+    def sort_key(self, c, elem):
+        """exactly `|a, b| a.FIELD.cmp(&b.FIELD)`"""
+        w = self.w(c)
+        if c.kind != "closure" or len(c.params) != 2 or c.body.stmts or c.body.tail is None or c.params[0] == c.params[1]:
+            fail(w, "the argument of `sort_unstable_by` has to be `|a, b| a.FIELD.cmp(&b.FIELD)`")
+        m = c.body.tail
+        a, b = c.params
+        ok = m.kind == "method" and m.name == "cmp" and len(m.args) == 1 and m.e.kind == "field" and m.e.e.kind == "var" and m.e.e.name == a
+        if ok:
+            arg = m.args[0]
+            ok = arg.kind == "ref" and arg.e.kind == "field" and arg.e.e.kind == "var" and arg.e.e.name == b and arg.e.name == m.e.name
+        if not ok:
+            fail(w, "the argument of `sort_unstable_by` has to be `|a, b| a.FIELD.cmp(&b.FIELD)` (an EXTERN whose contract is: sorted by FIELD)")
+        if seq_unref(elem)[0] != "range" or m.e.name not in ("start", "end"):
+            fail(w, f"sort key `{m.e.name}` of {seq_show(elem)}")
+        return m.e.name
+
+    def from_fn(self, e, env, frame, depth, k):
+        w = self.w(e)
+        if frame.kind != "fn" or self.fuel:
+            fail(w, "`std::iter::from_fn` anywhere else than as the result of the function is outside the translated subset")
+        if self.top_ret[0] != "iterret":
+            fail(w, "`std::iter::from_fn` in a function that does not return `impl Iterator<Item = ..>`")
+        if len(e.args) != 1 or e.args[0].kind != "closure" or e.args[0].params or not e.args[0].move:
+            fail(w, "the argument of `std::iter::from_fn` has to be `move || { .. }`")
+        c = e.args[0]
+        used = set()
+        seq_idents(c.body, used)
+        if "self" in used:
+            fail(w, "capture of `self`")
+        cap = [n for n in env if n in used]
+        state = [n for n in cap if env[n].mut]
+        fixed = [n for n in cap if not env[n].mut]
+        for n in cap:
+            if env[n].alias:
+                fail(w, "capture of an alias")
+        item = T("opt", self.top_ret[1])
+        cf = SeqFrame("closure", state, item, frame)
+        env_c = {n: env[n] for n in fixed + state}
+        body = self.block(c.body, env_c, cf, depth + 1, lambda term, ty, env2: self.emit_return(cf, term, ty, env2, c))
+        self.nclosure += 1
+        fname = f"{self.lean_name}.next"
+        if self.nclosure > 1:
+            fail(w, "two closures")
+        ps = " ".join(f"({lname(n)} : {seq_lty(seq_unref(env[n].ty))})" for n in fixed + state)
+        sty = seq_tuple_ty([seq_unref(env[n].ty) for n in state])
+        where = w
+
+        def emit(b):
+            return [f"/-- one call of the closure passed to `std::iter::from_fn` in `{self.node.name}` ({where}): captured state ({', '.join(state)}) ↦ the item and the new state -/",
+                    f"def {fname} {b + ' ' if b else ''}{ps} : R ({seq_lty(item, False)} × ({sty})) :="] + ["  " + x for x in body]
+        self.aux.append(emit)
+        self.fuel = True
+        call = " ".join([fname] + [lname(n) for n in fixed])
+        st = seq_tuple(state)
+        proj = " ".join(f"s.{i + 1}" if i + 1 < len(state) or len(state) == 1 else f"s.{i + 1}" for i in range(len(state)))
+        if len(state) == 1:
+            proj = "s"
+        elif len(state) > 2:
+            proj = " ".join(["s.1"] + ["s" + ".2" * i + ".1" for i in range(1, len(state) - 1)] + ["s" + ".2" * (len(state) - 1)])
+        # the function's value: the items, collected
+        return [f"fromFn (fun s => {call} {proj}) fuel {st}"]
+
+
+def seq_section(toks):
+    """the Lean text (lines) of the SEQ_TARGETS; `toks(rel)` = the tokens of a file without attributes"""
+    L, cur, structs_done = ["set_option linter.unusedVariables false", ""], None, []
+    for rel, hdr, ns, rname, lean_name in SEQ_TARGETS:
+        tk = toks(rel)
+        uses = std_uses(tk)
+        tparams, self_t, header = {}, None, None
+        if hdr is not None:
+            header = hdr.split()
+            hp = SeqParser([Tok("op" if not re.match(r"\w", x) else "id", x, 0) for x in header] + [Tok("eof", "", 0)], rel + " (SEQ_TARGETS)", set(SEQ_STRUCTS), uses=uses)
+            hp.eat("impl")
+            hp.generics()
+            if "for" in header:
+                hp.i = header.index("for") + 1
+            self_t = hp.type_()
+            if hp.peek().kind != "eof" or self_t[0] != "vstruct":
+                fail(rel, f"impl header `{hdr}`")
+            tparams = hp.tparams
+            sname = self_t[1]
+            if sname not in structs_done:
+                want = f"struct {sname} < T > ( Vec < T > ) ;".split()
+                texts = [x.text for x in tk]
+                hits = [i for i in range(len(texts) - len(want)) if texts[i : i + len(want)] == want]
+                if len(hits) != 1:
+                    fail(rel, f"`struct {sname}<T>(Vec<T>);` not found (exactly this shape is translated)")
+                structs_done.append(sname)
+                if cur is not None:
+                    L += [f"end {cur}", ""]
+                    cur = None
+                L += [f"/-- `struct {sname}<T>(Vec<T>)` ({rel}:{tk[hits[0]].line}) -/", f"structure {sname} (T : Type) where", "  v0 : List T  -- Vec<T>", ""]
+        where = find_impl_fns(tk, rel, self_t[1] if self_t else None, None, [rname], header)
+        p = SeqParser(tk, rel, set(SEQ_STRUCTS), tparams=tparams, uses=uses)
+        p.self_t = self_t
+        p.i = where[rname]
+        node = p.seq_fn()
+        g = SeqGen(rel, ns, lean_name, node, self_t, file_uses(tk))
+        lines = g.gen()
+        if ns != cur:
+            if cur is not None:
+                L += [f"end {cur}", ""]
+            L += [f"namespace {ns}", ""]
+            cur = ns
+        L += lines + [""]
+    if cur is not None:
+        L += [f"end {cur}", ""]
+    return L
 
 
 def main(argv):
